@@ -12,2697 +12,1197 @@ Definition show_fres (r : fres) : string :=
   end.
 Definition check (rs : list rune) : string := digest (show_fres (format_res rs)).
 Definition full (rs : list rune) : string := show_fres (format_res rs).
-Eval vm_compute in ("<<<M487>>>" ++ check (runes_of_ascii "packet// " ++ [27880; 37322]%N ++ runes_of_ascii "
-len{ // a // b
-match // trailing space 
-Pad as x_y_z {""abc"" :	float, [ ""CRC32""
-    ,""CRC32""
-,0 , """ ++ [233]%N ++ runes_of_ascii "t" ++ [233]%N ++ runes_of_ascii """
-    , 255
-// packet A { u8 x, }
-//x
-,
-255 , //x
-""`tick`"" , """ ++ [233]%N ++ runes_of_ascii "t" ++ [233]%N ++ runes_of_ascii """ ] : A	, 0123456789 : // trailing space 
-rootA ,	""a\""b""  :
-trueish
-    ,
-    }
-, repeat  int `{ , }` ,@lengthOf( trueish
-)	roots @lengthOf( body)	, float32 lengthOf// a // b
-,
-@rightPad  ( ' ')	repeatCount @lengthOf( calculatedFrom)
-`line1
-line2` , uint64 string_  @calculatedFrom(""x y"" ) , // @lengthOf(
-Header _x`two words` ,
-i64 roots  `
-`
-    , } // a // b
-options {repeatCount = // " ++ [27880; 37322]%N ++ runes_of_ascii "
-false
-// @lengthOf(
-//	t
-; MetaDataX = int16 }root packet As// packet A { u8 x, }
-{
-    @rightPad // trailing space 
-(
-'0' ) uint32 BodyLength `u8 x,` ,stringy
-//	t
-//
-`crlf
-line` ,
-int64 body `a\`
-, uint32 u128
-,
-@tag(	255
-// packet A { u8 x, }
-// @lengthOf(
-) zchar[ 7 ]	pack `line1
-line2` ,
-@rightPad( '\x00' )
-    repeat MetaDataX { x_y_z
-    { repeat _x { zchar //
-rootA  `
-` ,
-    // " ++ [128512]%N ++ runes_of_ascii " emoji
-    }
-    /// triple
-    , repeat string_ {
-// a // b
-// packet A { u8 x, }
-zchar[0123456789
-] lengthOf	,
-    }
-    , u128
-    asx `
-` , match chars as i64_
-{ ""`tick`"" ://	t
-int ,
-[  ""a\\"" ,1 ]  :x 7 : x_y_z //x
-,""" ++ [233]%N ++ runes_of_ascii "t" ++ [233]%N ++ runes_of_ascii """ : string_, [ 42	,""1""
-    ,	""x y"" ,""`tick`""
-    ] : options1 ,}  ,} ,
-msg_type  @calculatedFrom( ""a\""b""  )// " ++ [128512]%N ++ runes_of_ascii " emoji
-,char[ 4294967296
-] asx `" ++ [28040; 24687; 31867; 22411]%N ++ runes_of_ascii "`//
-, match _x
-as i8i8 { [	""x y"" // @lengthOf(
-]
-    : charz , 4294967296
-    : x_y_z,} ,  }// " ++ [128512]%N ++ runes_of_ascii " emoji
-,@calculatedFrom( ""CRC32"" ) As
-_x , @rightPad ('\x00' ) //	t
-@tag(0123456789 ) @calculatedFrom( ""it's"")
-    zchar[3 ]
-f32a`doc` , } // @lengthOf(
-MetaData	u {rootA //
-len `
-`
-,
-}	packet Packet // trailing space 
-{ @lengthOf(	len
-)repeat
-    u64 body  ,
-    repeat
-    leftPad i64_ , // c
-@lengthOf( zchar ) i16 x
-,
-    // trailing space 
-    BodyLength // packet A { u8 x, }
-{ repeat packetx tag, }
-    //
-    ,
-    char[
-    3 ]Logon
-    @calculatedFrom( ""{,}"" // @lengthOf(
-) , @tag(  0
-)match tag as int { 0123456789 :	float , }
-    , match trueish as// c
-Logon
-{ //	t
-""`tick`"" :As
-    ,}	, char[ 00]Header, }
-")).
-Eval vm_compute in ("<<<M4436>>>" ++ check (runes_of_ascii "
-packet
-rootA
-
-    {
-    @rightPad (
-'0'
-)
-string
-
-    leftPad@calculatedFrom(
-
-""" ++ [233]%N ++ runes_of_ascii "t" ++ [233]%N ++ runes_of_ascii """
-)
-	`two words`
-	,	}
-	packet	// a // b
-
-  A {
-	@calculatedFrom( ""it's""  )char[]	// @lengthOf(
-	msg_type
-
-@lengthOf( asx )
-
-`u8 x,`
-    ,
-
-    charz
-o
-,@calculatedFrom(
-
-    ""`tick`"")
-
-    @lengthOf(  // @lengthOf(
-		crc
-// " ++ [27880; 37322]%N ++ runes_of_ascii "
-  // trailing space 
-  ) 
-    //
-  match// " ++ [128512]%N ++ runes_of_ascii " emoji
-falsey
-
-    as metadata
-    {
-    // @lengthOf(
-
-  [
-65535
-
-,
-    65535
-
-]:u8x
-
-,""\n""
-	    // @lengthOf(
-    	// @lengthOf(
-: int // " ++ [128512]%N ++ runes_of_ascii " emoji
-
-,
-    007 :
-
-MetaDataX
-
-,
-    ""it's""
-: f32a,
-	0
-
-    : i8i8,
-[	65535
-    ,
-	255
-
-]
-	:
-u8x , } , 
-} packet
-
-charz
-
-{
-
-string
-	MetaDataX 	 // a // b
-  , 
-    // packet A { u8 x, }
-
-  repeat
-
-    char[] 
-_x	,	@rightPad
-	( )
-
-match pack as
-    //	t
-	string_ {""a	b"" : trueish
-    ,
-	""it's""
-
-// trailing space 
-
-//
-    :  A 
-10:
-
-T
-
-0
-
-:  // trailing space 
-	msg_type	, [
-7
-, 1
-
-,	""1""
-	,// `tick` ""quote"" 'q'
-00 	 // " ++ [27880; 37322]%N ++ runes_of_ascii "
-		,
-	10
-, 
-4294967296  ,10	]
-:
-Pad
-, 
-} ,  // a // b
-    A {	repeat
-	u128  {char[
-00 ]
-	a1 `line1
-line2`
-	, //x
-uint8x  rootA
-	`say ""hi""` , match
-    uint8x
-	as i64_{	""" ++ [28040; 24687]%N ++ runes_of_ascii """ :	msg_type
-
-, ""\n""	:
-    i8i8 , }
-,	i64
-x_y_z	`{ , }` 
-,
-} 
-// a // b
-      // a // b
-      ,
-	match
-zchar  
-  //	t
-  	// c
-	as  Header
-{
-3 
-:
-pack
-,""x y"" 
-: packetx ,  
-      //x
-    	255
-	:  u8x,
-	""abc""
-
-    :
-
-Z9_, ""x y"":msg_type [""a\\""
-, 10	// @lengthOf(
-  ]	// `tick` ""quote"" 'q'
-: o
-    }
-
-, char[ 
-
-// `tick` ""quote"" 'q'
-0
-	]
-
-    leftPad
-`{ , }` ,	string stringy @calculatedFrom( ""`tick`""  )
-
-`u8 x,`	,	}  , 
-repeat
-
-zchar[
-	00 ] // packet A { u8 x, }
-	Packet
-
-,
-repeat
-
-u16
-	tag	,
-	@tag(
-    65535  )repeat
-	uint64
-
-MetaDataX
-	, }
-    MetaData pack{ 
-} ")).
-Eval vm_compute in ("<<<M89>>>" ++ check (runes_of_ascii "packet
-x
-    // `tick` ""quote"" 'q'
-    { len// c
-{// " ++ [27880; 37322]%N ++ runes_of_ascii "
-repeat
-i32	crc `say ""hi""` , match
-    chars as Packet
-{ 0123456789//	t
-: Pad 0123456789 :
-falsey
-    // " ++ [27880; 37322]%N ++ runes_of_ascii "
-    [
-4294967296
-    , 3
-    ,
-4294967296 , 0, ""1"" ] :roots,
-""a\\""
-:
-_x 3
-    : packetx } , repeat string
-    stringy `tab	here`
-,  match roots as lengthOf{
-""abc"" //	t
-:
-packetx , } // packet A { u8 x, }
-, } ,@lengthOf( chars )match  rootA
-    // trailing space 
-    as roots{
-""\n"" //
-:
-    Packet ,} , // `tick` ""quote"" 'q'
-string As `" ++ [28040; 24687; 31867; 22411]%N ++ runes_of_ascii "` , @rightPad (
-'\x00' ) int64 trueish @lengthOf( lengthOf )  `" ++ [233]%N ++ runes_of_ascii "` , } packet	len {	} options
-    {a1
-    // packet A { u8 x, }
-    = false
-    // a // b
-    }packet Z9_{ repeat zchar[ 00
-]  options1
-    //x
-    ,	@lengthOf( falsey ) repeat//	t
-i8 options1 `two words`
-, @rightPad//
-() i8 msg_type, char[3]
-lengthOf `{ , }`	,  string _x,@leftPad (
-) // c
-uint16	chars,
-// @lengthOf(
-//
-@lengthOf(
-crc
-    )@leftPad
-    (
-    // " ++ [128512]%N ++ runes_of_ascii " emoji
-    '0' ) repeat
-stringy calculatedFrom , string
-// " ++ [27880; 37322]%N ++ runes_of_ascii "
-//
-int `line1
-line2`, @rightPad
-( ' '
-    ) match Foo as
-    rootA //x
-{ [ ""packet"", ""a\""b"", """ ++ [128512]%N ++ runes_of_ascii """
-    ,""""	,
-    42 ] : u
-// a // b
-// packet A { u8 x, }
-,
-0 // " ++ [27880; 37322]%N ++ runes_of_ascii "
-:	A
-    , // trailing space 
-00
-:
-asx
-//x
-// trailing space 
-0 :  x_y_z
-    ,
-""CRC32"" : i64_
-, 42 : x
-// c
-// " ++ [128512]%N ++ runes_of_ascii " emoji
-, } , roots{ repeat zchar[10 ] stringy `" ++ [28040; 24687; 31867; 22411]%N ++ runes_of_ascii "` ,	} , } MetaData
-    // `tick` ""quote"" 'q'
-    tag{ f32 tag
-    ``, }
-")).
-Eval vm_compute in ("<<<M3950>>>" ++ check (runes_of_ascii "
-packet 
-tag
-
-{ 
-zchar[	65535 ]T
-
-    ,match
-i64_  as
-
-chars
-{
-
-    007	:
-
-    asx , 
-[
-
-    ""a\""b""
-,
-
-""a\""b""
-,  7 	 // a // b
-,
-
-    0
-, 
-""\" ++ [233]%N ++ runes_of_ascii """,""abc""
-    ,
-""x y"" 	 // trailing space 
-	  ,
-    0
-] 
-:
-
-u8x 7
-: 	 // c
-  	leftPad 
-7
-
-:
-body
-,
-
-""`tick`""	:// `tick` ""quote"" 'q'
-	  lengthOf  ,
-
-}
-
-    , @leftPad
-    ( )
-@rightPad
-(
-	)
-
-repeat
-    //
-	i64_	charz	,	repeat//	t
-    charz  u8x
-
-, repeat	float32
-    uint8x ,
-	} packet
-falsey{ }
-packet 	 // trailing space 
-Z9_
-{ 
-repeat u{int32 i8i8 ,	// " ++ [128512]%N ++ runes_of_ascii " emoji
-repeat
-
-BodyLength
-
-    {
-
-    match
-
-string_ as charz	{
-
-    ""\" ++ [233]%N ++ runes_of_ascii """
-	//
-  /// triple
-  :
-    As } , //x
-i64_ @calculatedFrom(
-	""packet"")
-,
-	}
-
-    , 
-    //x
-    } 
-,  asx{	//x
-    	char[ 4294967296
-	]
-pack ,// @lengthOf(
-	}
-,@rightPad
-(
-'0' 
-)  falsey
-repeatCount
-    // c
-    // " ++ [27880; 37322]%N ++ runes_of_ascii "
-	, 
-@tag(
-
-    // packet A { u8 x, }
-  0 ) 
-uint16
-chars
-
-    `" ++ [233]%N ++ runes_of_ascii "` , 
-x	@lengthOf(asx 
-    /// triple
-  // a // b
-	)
-
-`line1
-line2`  ,
-
-    repeat
-	options1 
-a1,
-	@tag( 
-        // @lengthOf(
-      42 
-    /// triple
-	// packet A { u8 x, }
-  ) 
-@leftPad
-    (  '\x00' )
-
-match T
-    as
-
-x
-	{ [
-
-""a\\""]
-	:
-
-falsey
-    }// `tick` ""quote"" 'q'
-	, x,
-	trueish
-
-    i8i8
-    ,
-    }MetaData
-	T
-{
-MetaDataX
-
-    i8i8`it's`  ,} // `tick` ""quote"" 'q'
-")).
-Eval vm_compute in ("<<<M4366>>>" ++ check (runes_of_ascii "packet Z9_ {
-    repeat charz {
-        match chars as T {
-            // trailing space 
-            ""// no comment"" : float,
-            42 : string_,
-        },// " ++ [128512]%N ++ runes_of_ascii " emoji
-    },
-    @calculatedFrom(""CRC32"")
-    trueish @lengthOf(As) `" ++ [28040; 24687; 31867; 22411]%N ++ runes_of_ascii "`,
-    @lengthOf(_x)
-    falsey @lengthOf(zchar) `two words`,
-    @lengthOf(x)
-    string chars @lengthOf(int),
-    f32 options1,
-    @lengthOf(Pad)
-    match len as leftPad {
-        4294967296 : rootA,
-        42 : Z9_,
-    },
-}
-
-options {
-    T = true
-}
-
-MetaData repeatCount {
-    char[] string_ `" ++ [233]%N ++ runes_of_ascii "`,
-    f64 Z9_,
-    f32 _x,
-}/// triple
-
-packet chars {
-    match trueish as asx {
-        0123456789 : chars,
-    },
-    @tag(10)
-    repeat rootA `" ++ [233]%N ++ runes_of_ascii "`,
-    zchar[255] MetaDataX `doc`,
-    u16 Header `" ++ [233]%N ++ runes_of_ascii "`,
-    @leftPad(' ')
-    match trueish as a1 {
-        """ ++ [28040; 24687]%N ++ runes_of_ascii """ : As,
-        1 : pack,
-        1 : repeatCount,
-        [7] : u,
-    },
-    @lengthOf(tag)
-    u128 {
-        int32 tag @lengthOf(u8x),
-    },// trailing space 
-    @lengthOf(u)
-    @calculatedFrom(""a	b"")
-    @tag(00)
-    // c
-    i64 calculatedFrom @lengthOf(calculatedFrom) `" ++ [28040; 24687; 31867; 22411]%N ++ runes_of_ascii "`,
-}
-
-packet pack {
-    @calculatedFrom(""\n"")
-    string i8i8 `line1
-        line2`,
-}")).
-Eval vm_compute in ("<<<M3834>>>" ++ check (runes_of_ascii "
-
-  packet  Logon {@leftPad
-    ( '0'
-    ) @calculatedFrom(	""CRC32""	) match  x_y_z
-as calculatedFrom{
-
-[
-// trailing space 
-  // " ++ [128512]%N ++ runes_of_ascii " emoji
-65535,
-10	] : 
-asx 0
-
-    :BodyLength ,
-
-} 
-      //
-	// a // b
-
-	,@lengthOf(
-    metadata
-)int16	leftPad,match
-
-charz as i8i8  {
-	[ 65535	// a // b
-	  ]  :	repeatCount	,
-
-    ""CRC32"": Packet 
-,
-""a\""b""
-    :Z9_ 
-,
-
-    00 
-:
-falsey ,
-7
-
-    :
-
-    falsey
-
-    ,	}	, // " ++ [27880; 37322]%N ++ runes_of_ascii "
-@lengthOf(  body	)
-i32
-i8i8  `two words` 
-,
-    @calculatedFrom( ""`tick`""  )
-body	{
-
-    zchar[0 
-] BodyLength
-
-    `doc`
-
-, u `
-` 
-,}
-	,  @tag( 0123456789
-
-)
-
-@leftPad (  '\x00' )
-
-@calculatedFrom(""a	b""	)	match
-As
-	as x_y_z 
-{	""" ++ [128512]%N ++ runes_of_ascii """  :
-i64_
-,	0123456789
-:	Foo
-,65535  :	matchKey ,
-
-65535:
-lengthOf
-	4294967296  // a // b
-
-	: f32a
-, } 
-,
-zchar[0
-
-]
-
-string_ @lengthOf( packetx
-)
-`" ++ [233]%N ++ runes_of_ascii "`
-
-, @calculatedFrom(""x y""
-)
-    BodyLength	{ 
-char[	1
-
-    ] 
-int,
-f32a ,
-
-    repeat  Pad 
-tag  `say ""hi""`  , 
-} 
-,
-	//x
-  zchar[
-	    // `tick` ""quote"" 'q'
-
-0
-	]
-Foo
-	@calculatedFrom(
-""// no comment"" )
-, @tag(
-
-00 
-)
-	u16 roots  `it's`	, 
-} root
-
-    packet
-roots{  }
-
-")).
-Eval vm_compute in ("<<<M729>>>" ++ check (runes_of_ascii "
-MetaData
-charz{
-zchar[  3 ]Z9_ ,u8 a1
-    ,
-repeatCount metadata ,
-}options
-// trailing space 
-// @lengthOf(
-{ u
-=zchar[ 0123456789 ]; } //
-options
-    //
-    { T = 1	;
-    }
-packet
-_x { a1 @lengthOf(	falsey  ) ,
-    @leftPad(
-// packet A { u8 x, }
-// trailing space 
-'\x00'
-) @leftPad ( '0' ) @leftPad //
-( '0' ) repeat f32
-Header
-    `{ , }` ,@tag(
-    3	) o { repeat
-    //
-    f32a {
-    repeat //	t
-string o , Pad
-@lengthOf(stringy	)`u8 x,`, repeat zchar
-A
-    ,	repeat i8i8 ,
-}
-,
-uint8x
-    @lengthOf(zchar  )`two words` , match asx	as repeatCount { 255 :
-    u128 , ""`tick`"" //	t
-:calculatedFrom""\" ++ [233]%N ++ runes_of_ascii """ :
-    zchar
-    , 1 :f32a,
-    4294967296:  u128 ,""// no comment""  :Pad,} ,} , @tag( 255
-) // c
-chars { As Z9_
-    `u8 x,`,}
-    ,  @leftPad	(
-'\x00' )match uint8x as uint8x {""a\""b"": // " ++ [27880; 37322]%N ++ runes_of_ascii "
-charz , } , len @lengthOf(	i8i8 ) ,}
-    options { a1 =
-//x
-// trailing space 
-1
-pack = // " ++ [27880; 37322]%N ++ runes_of_ascii "
-false /// triple
-; // trailing space 
-Z9_ =
-// " ++ [27880; 37322]%N ++ runes_of_ascii "
-// `tick` ""quote"" 'q'
-' 'pack=
-// packet A { u8 x, }
-// trailing space 
-0123456789 }
-")).
-Eval vm_compute in ("<<<M3518>>>" ++ check (runes_of_ascii "options {
-    StringPrefixLenType = u8;
-    ArrayPrefixLenType = u8;
-    FixedStringPadFromLeft = true;
-    FixedStringPadChar = ' ';
-}
-packet Logout {
-    repeat string Px,
-    repeat string seqNo,
-    InMsgkind64 {
-        uint16 OrderId,
-        char[] count,
-        repeat i32 venue,
-    },
-}
-packet Heartbeat {
-    float32 tag7,
-    repeat InPrice50 {
-        repeat char[5] lastPx,
-        InRef42 {
-            u8 pad0,
-        },
-        uint32 Acct,
-        repeat Logout,
-        repeat char[5] Qty,
-    },
-    repeat InSeqno30 {
-        repeat Logout,
-    },
-    @leftPad('0') char[12] Acct,
-    char[] Side2,
-    repeat string msgKind,
-}
-packet Ack {
-    Heartbeat,
-    char[8] seqNo,
-    float64 clOrdID,
-}
-packet Trade {
-    char[] OrderId,
-    f64 Side2,
-    zchar[8] f1,
-    string Qty,
-    float64 seqNo,
-    repeat Logout,
-}
-packet Order {
-    f32 OrderId,
-    repeat u8 x,
-    Ack,
-    zchar[7] Note,
-}
-root packet Logon {
-    @rightPad('\x00') char[9] f1,
-}
-")).
-Eval vm_compute in ("<<<M954>>>" ++ check (runes_of_ascii "
-packet
-    zchar{
-repeat
-    // trailing space 
-    trueish _x,
-    @calculatedFrom(
-    ""\n"" )uint16  stringy `// not a comment`
-    , @rightPad /// triple
-( ' ' )
-    body
-    { leftPad	i8i8 ,	lengthOf {
-// " ++ [128512]%N ++ runes_of_ascii " emoji
-// " ++ [27880; 37322]%N ++ runes_of_ascii "
-int64 asx `// not a comment` ,
-leftPad {packetx @lengthOf(
-MetaDataX
-)
-, } , i32
-// trailing space 
-//	t
-o ,}
-// c
-/// triple
-,
-    }, f32 Z9_ `crlf
-line` ,
-    @calculatedFrom( ""abc""
-)calculatedFrom charz,
-repeat	zchar
-//x
-// `tick` ""quote"" 'q'
-Z9_, match T as
-o{	00 :
-    calculatedFrom  ,
-0123456789 : charz
-,
-    ""\" ++ [233]%N ++ runes_of_ascii """ :
-    a1} , @lengthOf( A
-) repeat
-    len
-, }root
-packet Pad { }
-    options
-    { msg_type = ""\n"" // packet A { u8 x, }
-trueish
-    // trailing space 
-    =int8
-;
-// " ++ [128512]%N ++ runes_of_ascii " emoji
-// `tick` ""quote"" 'q'
-repeatCount = ' ' u128 =  ""\" ++ [233]%N ++ runes_of_ascii """ ;  charz =
-    char[
-    // " ++ [128512]%N ++ runes_of_ascii " emoji
-    007]	}	MetaData string_ {
-    i64
-    Foo
-//
-// packet A { u8 x, }
-`say ""hi""`
-    , chars calculatedFrom
-//x
-//x
-,	}")).
-Eval vm_compute in ("<<<M1219>>>" ++ check (runes_of_ascii "packet int// " ++ [128512]%N ++ runes_of_ascii " emoji
-{@tag( 7 ) BodyLength { // @lengthOf(
-float32 f32a	, char[ 255 ] u8x @lengthOf( Z9_)`line1
-line2` ,
-repeat char[
-65535
-    ]
-// `tick` ""quote"" 'q'
-// a // b
-tag `" ++ [233]%N ++ runes_of_ascii "` ,
-match Header//x
-as  int {""" ++ [128512]%N ++ runes_of_ascii """
-// trailing space 
-//	t
-://	t
-body, [
-""" ++ [233]%N ++ runes_of_ascii "t" ++ [233]%N ++ runes_of_ascii """  ,
-    """ ++ [128512]%N ++ runes_of_ascii """ , ""packet"", 00 ,4294967296, 255
-    ]: int	[ 0 ,""a	b"" ]
-: Z9_ , [
-65535// " ++ [128512]%N ++ runes_of_ascii " emoji
-] : tag
-,/// triple
-""" ++ [233]%N ++ runes_of_ascii "t" ++ [233]%N ++ runes_of_ascii """:
-    // `tick` ""quote"" 'q'
-    options1
-//
-//x
-}
-,} ,
-zchar[
-255 ] MetaDataX@lengthOf(Z9_  ) `crlf
-line`
-, stringy
-/// triple
-// @lengthOf(
-{ repeat	string A	, // packet A { u8 x, }
-crc{ zchar[ 1 ]
-    // c
-    uint8x,
-}
-, uint16 Packet @calculatedFrom(
-""a	b"" )
-    ,	len @calculatedFrom(
-    ""a	b""
-    )
-`two words` , } ,
-zchar[ 255] As ``
-,i16// `tick` ""quote"" 'q'
-calculatedFrom ,
-@tag( 42 // `tick` ""quote"" 'q'
-)
-repeat x_y_z `two words`
-    // " ++ [128512]%N ++ runes_of_ascii " emoji
-    , uint8 lengthOf , @tag(
-0 )
-u128, }
-")).
-Eval vm_compute in ("<<<M1394>>>" ++ check (runes_of_ascii "root packet
-    // c
-    stringy { match
-    repeatCount as matchKey { ""a\\""
-: // trailing space 
-roots  ,} ,i8 o
-`" ++ [233]%N ++ runes_of_ascii "`
-, pack `" ++ [28040; 24687; 31867; 22411]%N ++ runes_of_ascii "`, u16  o , @tag(	0123456789 )zchar[  42	]
-repeatCount
-@calculatedFrom(
-"""" ) ,
-@leftPad( ' ' ) //
-repeat Header
-    {
-match asx // " ++ [128512]%N ++ runes_of_ascii " emoji
-as falsey {
-""\n""
-: asx  , 0
-    : Z9_ ,
-    // packet A { u8 x, }
-    00
-: repeatCount ,
-7 // a // b
-: a1 /// triple
-,
-    255 :A	,}
-    ,match crc// @lengthOf(
-as Foo
-// trailing space 
-//	t
-{
-    7 :
-    // @lengthOf(
-    packetx ,4294967296: lengthOf ,1
-:
-    pack , [
-    007 ]: Z9_ ""\" ++ [233]%N ++ runes_of_ascii """	: trueish ,
-} ,  int64
-i64_
-    // a // b
-    @calculatedFrom( ""\" ++ [233]%N ++ runes_of_ascii """ ) , }// @lengthOf(
-, repeat
-int64
-Foo ,@tag( 0123456789
-) u16	u8x , char[3]
-charz
-    `" ++ [233]%N ++ runes_of_ascii "` ,} MetaData pack
-    { //
-string pack
-// a // b
-// c
-, f32a
-Packet ,
-i64 u128 ,uint16 i8i8 , } // " ++ [128512]%N ++ runes_of_ascii " emoji")).
-Eval vm_compute in ("<<<M846>>>" ++ check (runes_of_ascii "// " ++ [128512]%N ++ runes_of_ascii " emoji
-options
-{ }// a // b
-packet/// triple
-a1  {char[ 10]
-//	t
-// " ++ [128512]%N ++ runes_of_ascii " emoji
-msg_type @calculatedFrom(
-""packet"" )
-    `u8 x,`
-,	crc
-{ float x
-,repeat i32 MetaDataX,}
-    , @calculatedFrom(
-""// no comment"" )//x
-repeat float
-matchKey
-`" ++ [233]%N ++ runes_of_ascii "` ,// `tick` ""quote"" 'q'
-match	lengthOf
-    as asx { [
-    //x
-    1,
-    1
-    ]
-: x_y_z , }
-,
-    @lengthOf(
-tag )
-repeat f32 //x
-A `tab	here` , @calculatedFrom(	""x y"" ) match
-u128 as rootA { 3 : pack , [ ""CRC32"", ""1"" , ""CRC32"" , 7,
-""`tick`"" ,
-""a\\"" ,""{,}""
-, 65535
-] :	repeatCount ,
-3 : f32a
-,
-007 : falsey ""// no comment"" :Header 00 :Foo,}
-, repeat string falsey , @lengthOf( string_
-)// a // b
-stringy, @rightPad	( )@rightPad ( // c
-' '
-    ) @leftPad
-// `tick` ""quote"" 'q'
-// " ++ [128512]%N ++ runes_of_ascii " emoji
-(
-) repeatCount,	@rightPad ( ) // " ++ [27880; 37322]%N ++ runes_of_ascii "
-repeat trueish	,}
-// c
-")).
-Eval vm_compute in ("<<<M900>>>" ++ check (runes_of_ascii "// " ++ [128512]%N ++ runes_of_ascii " emoji
-MetaData int {	As
-options1 ,
-char[
-    // a // b
-    42]  a1, int32 Foo
-`// not a comment`, int32// trailing space 
-float
-    , zchar[4294967296] uint8x
-// c
-// `tick` ""quote"" 'q'
-`// not a comment` ,	char[] Pad ,  }  root packet
-MetaDataX { @tag( 1
-    ) u128 { repeatCount	Packet
-    , } , A
-    , @lengthOf(u128 ) @leftPad
-    ( )@leftPad ( '\x00' )repeat i16
-    uint8x `u8 x,` ,
-int16
-float @calculatedFrom( ""abc""
-) `" ++ [28040; 24687; 31867; 22411]%N ++ runes_of_ascii "`// packet A { u8 x, }
-, body @lengthOf( _x )  , @leftPad	( '0')
-    //x
-    match roots
-as Header // `tick` ""quote"" 'q'
-{""{,}""
-:Packet , 0123456789
-:
-pack  00 : matchKey[ """ ++ [28040; 24687]%N ++ runes_of_ascii """
-    ,
-4294967296  ] : string_
-    ,
-    } , }  packet
-    charz{// trailing space 
-char[ 00
-    ]u8x , i32 chars ,
-}
-packet matchKey
-    { }")).
-Eval vm_compute in ("<<<M3861>>>" ++ check (runes_of_ascii "options
-	{ StringPrefixLenType 
-= 
-u16 ;
-
-    ArrayPrefixLenType
-
-    =
-    u32
-
-    ;
-	FixedStringPadFromLeft
-	=
-false;
-FixedStringPadChar	=
-    '0' ;}
-	packet
-Logout
-
-{
-f64  f1
-	,
-
-i16 Note , @rightPad
-	(
-'\x00'
-)  char[11 ] 
-Flags , } packet Cancel{	float64 msgKind,	}
-
-packet
-
-Reject
-{
-	InQty43{ 
-float32  sym ,
-    char[  10]  Tail
-
-    ,uint8 venue
-,	uint16
-f1 
-, 
-char[ 9
-]Acct
-, } 
-, } packet
-Trade
-	{
-
-char[]x
-,zchar[
-6
-	]	Note
-	,  repeat
-	Reject , 
-}
-
-root
-    packet
-
-    Order
-{
-    Cancel
-
-,	Logout ,
-    u64 
-Acct ,
-u32	OrderId, match
-
-OrderId
-
-    as
-Body {
-    [
-127 ,70 ] : Reject ,  177
-: Trade
-,
-58 : Logout
-,
-75
-
-    :
-    Cancel
-, }
-,u32
-
-    Tail  @calculatedFrom( ""CRC32""
-
-)
-
-,}
-")).
-Eval vm_compute in ("<<<M3608>>>" ++ check (runes_of_ascii "packet Z9_ {
-    repeat options1 {
-        repeat i16 o `two words`,
-        match charz as o {
-            [4294967296, ""// no comment""] : u,
-        },
-        match float as tag {
-            [00] : leftPad,
-            [
-                """ ++ [233]%N ++ runes_of_ascii "t" ++ [233]%N ++ runes_of_ascii """, ""\n"", 0, ""CRC32"", 1,
-                """ ++ [28040; 24687]%N ++ runes_of_ascii """, 255, 1
-            ] : options1,
-            255 : x,
-            00 : x,
-        },
-        repeat string asx `u8 x,`,
-    },
-    // " ++ [27880; 37322]%N ++ runes_of_ascii "
-    // a // b
-    zchar[3] falsey,
-}
-
-packet u {
-    //x
-    // trailing space 
-    zchar[0] asx,
-    @tag(10)
-    @rightPad(' ')
-    @rightPad('\x00')
-    Logon @calculatedFrom(""" ++ [128512]%N ++ runes_of_ascii """),
-    repeat char[255] calculatedFrom,
-    uint16 lengthOf,
-}
-
-root packet pack {
-}")).
-Eval vm_compute in ("<<<M1134>>>" ++ check (runes_of_ascii "packet	MetaDataX
-    { T@lengthOf(
-//x
-// a // b
-trueish )
-`` , @rightPad( ' '
-) repeat options1 // @lengthOf(
-A /// triple
-`" ++ [233]%N ++ runes_of_ascii "` //x
-,options1 @lengthOf( lengthOf
-)
-    // `tick` ""quote"" 'q'
-    `u8 x,`  , } root packet As {repeat Logon `
-` , @calculatedFrom( """ ++ [28040; 24687]%N ++ runes_of_ascii """  )// packet A { u8 x, }
-zchar[ 3 ] T ,match Foo as u{[
-""`tick`"" ]
-// `tick` ""quote"" 'q'
-// @lengthOf(
-: As ,}
-    , } packet//	t
-charz
-    {
-@lengthOf( u ) match charz // @lengthOf(
-as zchar
-{ [
-//	t
-// @lengthOf(
-""" ++ [128512]%N ++ runes_of_ascii """,
-""packet""
-]:
-    crc [ 7
-, 10
-    ,	7  , 3 // packet A { u8 x, }
-,4294967296
-    // trailing space 
-    ,
-""a\\"" ] : string_ , [3  ]:
-    As 10 : uint8x,	65535: matchKey, }
-    , }")).
-Eval vm_compute in ("<<<M1261>>>" ++ check (runes_of_ascii "MetaData o  {
-    } packet leftPad{ charz
-{ match u as repeatCount{[
-    1]
-:	x_y_z , 00
-: matchKey// c
-[""\" ++ [233]%N ++ runes_of_ascii """ , 7 ,""abc"" ,""`tick`"" ]
-: MetaDataX
-    // packet A { u8 x, }
-    ,
-    65535:
-    o , ""abc""
-: matchKey ,
-} , } ,
-    // trailing space 
-    len
-`say ""hi""` , // @lengthOf(
-@rightPad (
-    ' ' ) char[	00] Pad , }packet Pad{
-@leftPad ( // @lengthOf(
-'\x00' )u128@calculatedFrom( ""a\\"" ) , @rightPad	('\x00'
-    )@rightPad
-( )
-    @calculatedFrom( ""a\""b"" )
-    // trailing space 
-    Z9_ metadata``
-    , @calculatedFrom(
-""x y""  ) tag @lengthOf(matchKey) , repeat zchar //
-{
-    uint8x u, } ,
-    // `tick` ""quote"" 'q'
-    }")).
-Eval vm_compute in ("<<<M3561>>>" ++ check (runes_of_ascii "options { // c1a
-  // c1b
-LittleEndian // c2a
-  // c2b
-= // c3a
-  // c3b
-true // c4
-; } // c6
-packet Logon // c8a
-  // c8b
-{ u8 // c10
-x , string // c13
-user
-    // c14
-,
-    // c15
-} // c16
-packet // c17a
-  // c17b
-Logout // c18
-{ // c19a
-  // c19b
-u16 // c20
-reason , } // c23
-packet // c24a
-  // c24b
-Empty { // c26
-} root packet Frame // c30
-{ // c31
-u16
-    // c32
-MsgType , @lengthOf( // c35
-Body ) // c37a
-  // c37b
-u8 BodyLen // c39
-, // c40
-u8 // c41a
-  // c41b
-flags // c42a
-  // c42b
-, // c43
-Logon
-    // c44
-Body
-    // c45
-, u32 // c47
-trailer // c48a
-  // c48b
-,
-    // c49
-} // c50a
-  // c50b
-")).
-Eval vm_compute in ("<<<M3876>>>" ++ check (runes_of_ascii "MetaData zchar {
-}
-
-packet Packet {
-    u16 x @calculatedFrom(""" ++ [28040; 24687]%N ++ runes_of_ascii """) ``,
-    // " ++ [128512]%N ++ runes_of_ascii " emoji
-    @tag(7)
-    @tag(00)
-    Packet u128,
-    @lengthOf(float)
-    match A as charz {
-        00 : x,
-        [0, 255, ""it's"", 10] : Packet,
-        ""a\\"" : metadata,
-        [""`tick`"", 10] : chars,
-        [""a\""b""] : trueish,
-    },
-    uint64 string_,
-    @rightPad(' ')
-    float64 stringy `line1
-    line2`,
-    @tag(00)
-    uint16 As,
-}//	t
-
-options {
-    Logon = false;
-    // a // b
-    body = f64;
-}
-
-MetaData asx {
-}
-
-packet leftPad {
-    float @lengthOf(A) `a\`,
-}
-// " ++ [27880; 37322]%N)).
-Eval vm_compute in ("<<<M3672>>>" ++ check (runes_of_ascii "
-root	/// triple
-    packet//	t
-  	options1
-{
-
-float64
-u128 
-`" ++ [28040; 24687; 31867; 22411]%N ++ runes_of_ascii "`	// a // b
-
-	,@tag( 
-0
-	) //	t
-  match 
-int as
-float {4294967296  //
-  : metadata
-,
-
-    ""a\\""
-
-    : x 	 // packet A { u8 x, }
-    ,
-3
-    :	u 
-  // packet A { u8 x, }
-	,
-    // c
-    	// " ++ [128512]%N ++ runes_of_ascii " emoji
-0
-:falsey
-
-    }	,
-}
-options 
-    // @lengthOf(
-
-//x
-
-{ As 
-    // " ++ [128512]%N ++ runes_of_ascii " emoji
-	//
-    =
-    // a // b
-// `tick` ""quote"" 'q'
-  	float64
-    ;
-        //	t
-
-	//	t
-Logon	=
-""// no comment""
-    ; float
-	=  char[255
-
-]
-	string_
-= 007
-	;
-
-    u
-=
-	'\x00'  }
-")).
-Eval vm_compute in ("<<<M549>>>" ++ check (runes_of_ascii "packet int	{ @lengthOf( body
-) @leftPad
-    // @lengthOf(
-    ( )@lengthOf( pack ) u32 o , int32
-// c
-// packet A { u8 x, }
-u8x
-    , @calculatedFrom(""a\\"" // @lengthOf(
-)x
-chars	,//	t
-@tag( 65535) charz
-{  msg_type u128 , } ,Pad charz ,repeat len { zchar[ 0
-] roots `doc`, char[ 7
-    ] o `a\` ,
-repeat int64 pack
-    ,
-} ,  @rightPad	( ' ' // c
-) repeat
-options1	{
-    /// triple
-    zchar[ 3 ] Foo ,
-char[
-    7 ]
-x_y_z
-    @calculatedFrom(
-/// triple
-//	t
-""a\""b"" ) ,
-repeat
-packetx , }//x
-, }
-")).
-Eval vm_compute in ("<<<M3680>>>" ++ check (runes_of_ascii "packet i64_ {
-}
-
-packet crc {
-}
-
-options {
-}
-
-root packet charz {
-}
-
-packet trueish {
-    repeat char[255] lengthOf `" ++ [28040; 24687; 31867; 22411]%N ++ runes_of_ascii "`,
-    zchar[00] x `it's`,/// triple
-    repeat char[] Packet `say ""hi""`,
-    @calculatedFrom(""x y"")
-    char[1] lengthOf,
-    lengthOf `crlf
-        line`,
-    match charz as MetaDataX {
-        ""a	b"" : uint8x,
-        ""\n"" : calculatedFrom,
-    },
-    @tag(10)
-    float64 i8i8 @calculatedFrom(""" ++ [128512]%N ++ runes_of_ascii """) `say ""hi""`,
-    @rightPad('\x00')
-    i32 Foo `it's`,
-}")).
-Eval vm_compute in ("<<<M179>>>" ++ check (runes_of_ascii "  packet
-    body
-//x
-/// triple
-{ } packet Foo {int @lengthOf( x
-    ) , float32 len
-    `" ++ [28040; 24687; 31867; 22411]%N ++ runes_of_ascii "`, repeat f32a Packet ,	i8 // @lengthOf(
-stringy
-/// triple
-// trailing space 
-@calculatedFrom(""// no comment"" )
-`line1
-line2`
-    ,
-@tag( 0
-    // a // b
-    ) match  u
-    as
-    falsey
-    //
-    { [ 10 , 3, ""`tick`"" , 42	, 3// `tick` ""quote"" 'q'
-]
-    : Pad  ,
-7 : repeatCount// c
-, 0 :
-    Foo}, }MetaData Packet { string// c
-u , }options { uint8x = true
-; }
-")).
-Eval vm_compute in ("<<<M1130>>>" ++ check (runes_of_ascii "packet
-matchKey
-{
-    repeat matchKey,	@rightPad(
-)uint64 i64_ @calculatedFrom(""1"" )`crlf
-line`
-// trailing space 
-//	t
-, repeat	crc crc, // c
-roots
-// " ++ [27880; 37322]%N ++ runes_of_ascii "
-// packet A { u8 x, }
-{ string lengthOf `doc` , }
-, i16	pack , Foo , u128 { repeat
-uint8 T ,} ,
-string	Packet ,  uint64
-f32a
-@calculatedFrom( ""\" ++ [233]%N ++ runes_of_ascii """ ) , repeat
-    T{
-u64 roots@calculatedFrom( ""CRC32"" ) `// not a comment` ,
-    int16 msg_type ,stringy trueish  , repeat
-    T
-float
-, } , }")).
-Eval vm_compute in ("<<<M369>>>" ++ check (runes_of_ascii "
-MetaData
-// packet A { u8 x, }
-// @lengthOf(
-calculatedFrom {  zchar[
-    3 ] u8x
-, i32 o
-,
-    zchar[42
-//x
-// @lengthOf(
-]
-leftPad ,roots u
-//x
-//
-, }
-packet
-    trueish{ @leftPad
-    ( )asx
-    //	t
-    @lengthOf(
-i8i8
-) ,
-    @rightPad ( '\x00' )tag
-@lengthOf( Packet ) , Pad
-    // `tick` ""quote"" 'q'
-    options1 `doc` ,	@lengthOf(
-Header) match Z9_
-// c
-/// triple
-as zchar
-{ 4294967296 : o ,
-    } ,  } /// triple")).
-Eval vm_compute in ("<<<M3287>>>" ++ check (runes_of_ascii "// top
-packet
+Eval vm_compute in ("<<<M1710>>>" ++ check (runes_of_ascii "  // top
+		options 
     // c0
-u128
-    // c1
-{
-    // c2
-@lengthOf(
-    // c3
-body
-    // c4
-)
-    // c5
-match
-    // c6
-x_y_z
-    // c7
-as
-    // c8
-u
-    // c9
-{
-    // c10
-""x y""
-    // c11
-:
-    // c12
-i8i8
+  {  // c1
+	  LittleEndian	// c2a
+      // c2b
+
+=	// c3
+  	true 	 // c4
+	;// c5a
+	// c5b
+  FixedStringPadFromLeft  // c6a
+	// c6b
+	=  true// c8
+	;
+FixedStringPadChar
+=	// c11
+'0'// c12
+	; 
     // c13
-,
-    // c14
-}
-    // c15
-,
-    // c16
-@tag(
-    // c17
-255
-    // c18
-)
-    // c19
-char[]
-    // c20
-roots
-    // c21
-@lengthOf(
-    // c22
-int
-    // c23
-)
-    // c24
-,
-    // c25
-}
-    // c26
-")).
-Eval vm_compute in ("<<<M298>>>" ++ check (runes_of_ascii "// a // b
-packet int  { //	t
-pack
-    // trailing space 
-    @lengthOf(// " ++ [27880; 37322]%N ++ runes_of_ascii "
-leftPad
-// @lengthOf(
-// c
-),
-u128 MetaDataX,	char[] charz
-    // a // b
-    @calculatedFrom(
-""\" ++ [233]%N ++ runes_of_ascii """ ) ,calculatedFrom{
-float
-BodyLength,
-}
-, @calculatedFrom(
-""" ++ [233]%N ++ runes_of_ascii "t" ++ [233]%N ++ runes_of_ascii """
-    )  @lengthOf( MetaDataX) match Logon //
-as  i64_{  [0 ,255 , 10, 7
-    // `tick` ""quote"" 'q'
-    , 0123456789 ]
-    :  asx // " ++ [128512]%N ++ runes_of_ascii " emoji
-}
-,
-    }")).
-Eval vm_compute in ("<<<M1354>>>" ++ check (runes_of_ascii "root
-packet i8i8 {repeat
-x float
-, @rightPad // c
-( '\x00'
-)As {
-    matchKey `two words` , zchar[ 255// c
-]
-x
-`line1
-line2` ,} ,// c
-}packet metadata {
-    } packet
-    A{ char[
-65535]
-    crc , u64 trueish
-    // `tick` ""quote"" 'q'
-    @lengthOf( o
-)
-,@calculatedFrom( ""// no comment""
-) falsey
-@lengthOf(A  )
-,//x
-@calculatedFrom(
-""CRC32"" ) u8
-    matchKey`tab	here` ,}
-")).
-Eval vm_compute in ("<<<M505>>>" ++ check (runes_of_ascii "root packet len{
-@lengthOf( matchKey ) repeat	repeatCount { repeat falsey ,  float64 Z9_
-    , repeat
-    i8i8 {
-i8i8 matchKey, // a // b
-} ,
-} ,
-    } packet
-    //	t
-    Z9_{	@calculatedFrom(
-    ""a	b""
-)match Z9_ as Packet { ""it's"" : lengthOf ,} ,
-// " ++ [27880; 37322]%N ++ runes_of_ascii "
-//
-} MetaData msg_type {
-    crc roots
-    // packet A { u8 x, }
-    ,
-uint8
-BodyLength , }
-// " ++ [128512]%N ++ runes_of_ascii " emoji
-")).
-Eval vm_compute in ("<<<M3789>>>" ++ check (runes_of_ascii "packet 	 // a // b
-	  i64_
+  }
+	// c14
+	packet  // c15a
+      // c15b
+
+Trade 
+	    // c16
+
 	{
-repeat
-	int64
-asx
 
-`line1
-line2`
-,}	options { 
-    // trailing space 
-chars = 
-255
+    string
 
-    ;
+    clOrdID
+    // c19
+,char[] 
+// c21
 
-    tag = 
-// c
-  3;matchKey
-    =  0123456789 
-} MetaData
-packetx	{
-	charz BodyLength
-, 	 //x
-  MetaDataX _x 
-`two words`,	MetaDataX 
-BodyLength, 
-float32 f32a
-`line1
-line2`,zchar[
-0
-    ]
+Px 	 // c22
+,	// c23
+  u32	// c24a
+  // c24b
 
-    stringy,
+x // c25
 
-    }")).
-Eval vm_compute in ("<<<M659>>>" ++ check (runes_of_ascii "packet lengthOf { repeat options1
-A
-,repeatCount @calculatedFrom(
-    """ ++ [128512]%N ++ runes_of_ascii """ )`two words`,i64 _x `{ , }` ,
-string
-_x
-@lengthOf( Pad  ) , match
-body // " ++ [27880; 37322]%N ++ runes_of_ascii "
-as u128 {1 : f32a, } , @lengthOf( /// triple
-MetaDataX  )
-    float64 _x,} packet calculatedFrom {
-i16 rootA ,}
-//x
-// c
-MetaData
-repeatCount
-    {} options {o
-    = 1 }
-")).
-Eval vm_compute in ("<<<M3914>>>" ++ check (runes_of_ascii "  options	{
-	LittleEndian
-    =
-    true
-;
-ArrayPrefixLenType
-    =
+,// c26a
+	// c26b
+    	}	// c27
 
-u64
-;FixedStringPadFromLeft
-    =
+packet// c28
+  Reject 
+	// c29
+		{  // c30
+int32 Side2// c32
+    	, 
 
-false
+// c33
+  repeat 	 // c34
+    	char[  // c35a
+  	// c35b
 
-;  }
-    packet Quote { 
-}root packet	Order
+3
+    ] // c37
 
-    { i64 Side2,
+	clOrdID // c38a
+      // c38b
+  ,
 
-    Quote  ,	u32
-Px	,	match 
-Px as
-Body{
-    [
-	119
-	,
-    147
+i32 	 // c40
+  tag7// c41a
+// c41b
 
-]
-    :	Quote 
-,	} 
-,u16	Flags 
-@calculatedFrom(
-
-    ""CR\
-C32"" ),
-	}
-
-")).
-Eval vm_compute in ("<<<M3557>>>" ++ check (runes_of_ascii "options {
-    LittleEndian = true;
-}
-packet Logon {
-    u8 x,
-}
-packet Logout {
-    u16 reason,
-}
-root packet Frame {
-    i32 Kind,
-    i32 Kind2,
-    match Kind as Body {
-        1 : Logon,
-        [2, 3, 4] : Logout,
-        100 : Logon,
-    },
-    match Kind2 as Trailer {
-        0 : Logout,
-    },
-}
-")).
-Eval vm_compute in ("<<<M3630>>>" ++ check (runes_of_ascii "packet metadata {
-    char[0] Z9_ `line1
-    line2`,
-}
-
-root packet chars {
-    /// triple
-    // @lengthOf(
-    As {
-        zchar[3] BodyLength @calculatedFrom(""it's"") `line1
-        line2`,
-    },
-}
-
-packet o {
-    @rightPad('\x00')
-    string f32a @calculatedFrom(""it's"") `// not a comment`,
-}")).
-Eval vm_compute in ("<<<M1440>>>" ++ check (runes_of_ascii "root packet Foo // " ++ [128512]%N ++ runes_of_ascii " emoji
-{ } options { {
-    // a // b
-    tag // `tick` ""quote"" 'q'
-= //	t
-""""
-    ; u8x = zchar[0  ] }
-MetaData
-    int {zchar[ 10]
-lengthOf	`` , i64 u8x`// not a comment` ,MetaDataX pack// `tick` ""quote"" 'q'
-`crlf
-line`
-, Logon charz `crlf
-line`
-    ,
-    // a // b
-    }
-")).
-Eval vm_compute in ("<<<M1618>>>" ++ check (runes_of_ascii "root packet Foo // " ++ [128512]%N ++ runes_of_ascii " emoji
-{ } options {
-    // a // b
-    tag // `tick` ""quote"" 'q'
-= //	t
-""""
-    ; u8x = zchar[0  ] }
-MetaData
-    int {zchar[ 10]
-lengthOf	`` , i64 u8x`// not a comment` ,MetaDataX pack// `tick` ""quote"" 'q'
-`crlf
-line`
-, " ++ [233]%N ++ runes_of_ascii "Logon charz `crlf
-line`
-    ,
-    // a // b
-    }
-")).
-Eval vm_compute in ("<<<M1546>>>" ++ check (runes_of_ascii "root packet Foo // " ++ [128512]%N ++ runes_of_ascii " emoji
-{ } options {
-    // a // b
-    tag // `tick` ""quote"" 'q'
-= //	t
-""""
-    ; u8x = zchar[0  ] }
-MetaData
-    int {zchar[ 10]
-lengthOf	`` , i64 `// not a comment`u8x ,MetaDataX pack// `tick` ""quote"" 'q'
-`crlf
-line`
-, Logon charz `crlf
-line`
-    ,
-    // a // b
-    }
-")).
-Eval vm_compute in ("<<<M1594>>>" ++ check (runes_of_ascii "root packet Foo // " ++ [128512]%N ++ runes_of_ascii " emoji
-{ } options {
-    // a // b
-    tag // `tick` ""quote"" 'q'
-= //	t
-""""
-    ; u8x = zchar[0  ] }
-MetaData
-    int {zchar[ 10]
-lengthOf	`` , i64 u8x`// not a comment` ,MetaDataX pack// `tick` ""quote"" 'q'
-`crlf
-line`
-, Logon charz `crlf
-line`
-    
-    // a // b
-    }
-")).
-Eval vm_compute in ("<<<M3729>>>" ++ check (runes_of_ascii "options {
-    calculatedFrom = i32;// @lengthOf(
-    string_ = 7
-    uint8x = true;
-}
-
-packet chars {
-    string stringy @lengthOf(stringy),
-}
-
-options {
-    lengthOf = '\x00'
-    // c
-    /// triple
-    matchKey = '0';
-    Z9_ = string;
-    calculatedFrom = true;
-    metadata = ""a	b"";
-}")).
-Eval vm_compute in ("<<<M1589>>>" ++ check (runes_of_ascii "root packet Foo // " ++ [128512]%N ++ runes_of_ascii " emoji
-{ } options {
-    // a // b
-    tag // `tick` ""quote"" 'q'
-= //	t
-""""
-    ; u8x = zchar[0  ] }
-MetaData
-    int {zchar[ 10]
-lengthOf	`` , i64 u8x`// not a comment` ,MetaDataX pack// `tick` ""quote"" 'q'
-`crlf
-line`
-, Logon charz 
-    ,
-    // a // b
-    }
-")).
-Eval vm_compute in ("<<<M1265>>>" ++ check (runes_of_ascii "root packet metadata {// packet A { u8 x, }
-@tag(
-    7)
-@rightPad (
-'0')
-match
-o as
-asx {
-// packet A { u8 x, }
-// packet A { u8 x, }
-[ 65535/// triple
-, ""a	b""] :tag , 0 :
-// c
-// " ++ [128512]%N ++ runes_of_ascii " emoji
-matchKey ,  4294967296:o// `tick` ""quote"" 'q'
-, ""it's"": /// triple
-_x	,}	, }
-")).
-Eval vm_compute in ("<<<M951>>>" ++ check (runes_of_ascii "root packet
-    pack {
-body ,
-char[
-10
-]	options1 ,	@tag( 007 )
-    //	t
-    @rightPad ( )@calculatedFrom( ""\n""
-)
-    // " ++ [128512]%N ++ runes_of_ascii " emoji
-    char[] tag
-    , repeat char[] Header  `` , asx {
-    repeat u8x
-    { repeat	u8 x_y_z , }// c
-, }
-,
-}MetaData pack { }
-")).
-Eval vm_compute in ("<<<M1588>>>" ++ check (runes_of_ascii "root packet Foo // " ++ [128512]%N ++ runes_of_ascii " emoji
-{ } options {
-    // a // b
-    tag // `tick` ""quote"" 'q'
-= //	t
-""""
-    ; u8x = zchar[0  ] }
-MetaData
-    int {zchar[ 10]
-lengthOf	`` , i64 u8x`// not a comment` ,MetaDataX pack// `tick` ""quote"" 'q'
-`crlf
-line`
-, Logon")).
-Eval vm_compute in ("<<<M4015>>>" ++ check (runes_of_ascii "packet  Logon {
-
-    @lengthOf(
-    Pad) 
-int{
-
-match
-matchKey as
-Pad  { ""CRC32""
-    :
-body
-
-, }
-
-,len
-	    // `tick` ""quote"" 'q'
-
-  @lengthOf(	// `tick` ""quote"" 'q'
-    	chars
-)
-    /// triple
-,
-    float@lengthOf(
-Foo 
-)
-	, }
-	,	}")).
-Eval vm_compute in ("<<<M3503>>>" ++ check (runes_of_ascii "packet
-Logon { string
-user
-	,
-
-    }
-
-    root
+  ,	// c42a
+// c42b
+    	} // c43a
+// c43b
 packet
-Frame
-
-{
-u8	K 
-,
-	match
-K	as  Body{
-
-    1
-	:Logon  ,2 
-:  Logout
-
-,
-}
-
-, 
-Tail,}
-	packet
-	Logout	{
-    u16
-    reason,
+	// c44
+  Leg 
+  // c45
+  	{
     }
-packet Tail	{
+    root 
+      // c48
+      packet 
+Quote  
+      // c50
+
+	{
+    // c51
+		string// c52
+		Side2  ,string
+        // c55
+  lastPx 
+    // c56
+  ,
+        // c57
+  InSym58  {  int16 OrderId 	 // c61a
+// c61b
+      ,	// c62a
+	// c62b
+    	Reject 	 // c63
+	  , // c64
+  i8 
+Qty 	 // c66
+
+	,
+
+    // c67
+	  i64 
+// c68
+  venue
+	, 
+f32	// c71
+	  Note	,// c73
+      }	// c74
+  , // c75a
+// c75b
+  char[] 
+
+// c76
+  count  // c77
+  ,
+	zchar[ 
+9 
+]// c81a
+  // c81b
+  	price
+        // c82
+	  ,  // c83
+  u16	// c84a
+
+// c84b
+Qty 
+
+    // c85
+
+,  
+      // c86
+match  // c87a
+  // c87b
+	  Qty  // c88
+
+  as  // c89
+  Body
+
+    // c90
+	{ // c91
+    69// c92a
+
+// c92b
+	  :  // c93
+	  Leg
+,  48 // c96a
+    // c96b
+    :// c97
+  	Trade  // c98a
+  // c98b
+  , 
+    // c99
+	51 
+	// c100
+    : // c101
+
+Reject// c102a
+  // c102b
+, // c103
+} 	 // c104
+
+	,u16
+	    // c106
+
+Acct	// c107
+    @calculatedFrom(// c108
+    	""CRC32"" // c109a
+	// c109b
+) ,	// c111a
+    // c111b
+
+  }
+")).
+Eval vm_compute in ("<<<M1537>>>" ++ check (runes_of_ascii "
+packet
+    As
+{@lengthOf(// c
+
+  u8x
+    )
+repeat
 
 u32
 
-    crc
+    T
+	,
 
-, } ")).
-Eval vm_compute in ("<<<M2281>>>" ++ check (runes_of_ascii "MetaData Packet { }packet	asx  { @lengthOf( asx) falsey`crlf
-line`
-,
-    }
-    packet packet x	{uint32// @lengthOf(
-rootA	,u32 options1 `say ""hi""` , @tag( 7
-    )// packet A { u8 x, }
-msg_type @lengthOf(
-stringy	)	, }
+string
+	Foo
+@calculatedFrom( ""it's""
+    )`doc`,
 
-")).
-Eval vm_compute in ("<<<M2226>>>" ++ check (runes_of_ascii "MetaData Packet { } }packet	asx  { @lengthOf( asx) falsey`crlf
-line`
-,
-    }
-    packet x	{uint32// @lengthOf(
-rootA	,u32 options1 `say ""hi""` , @tag( 7
-    )// packet A { u8 x, }
-msg_type @lengthOf(
-stringy	)	, }
+    @tag(
+        // a // b
+    // " ++ [27880; 37322]%N ++ runes_of_ascii "
+  00) 	 //
+    	@tag( 42 
+) repeatCount  {packetx{repeat  // @lengthOf(
+	f64
+x_y_z
 
-")).
-Eval vm_compute in ("<<<M2388>>>" ++ check (runes_of_ascii "MetaData Packet { }packet	asx  { @lengthO" ++ [8232]%N ++ runes_of_ascii "f( asx) falsey`crlf
-line`
-,
-    }
-    packet x	{uint32// @lengthOf(
-rootA	,u32 options1 `say ""hi""` , @tag( 7
-    )// packet A { u8 x, }
-msg_type @lengthOf(
-stringy	)	, }
-
-")).
-Eval vm_compute in ("<<<M2347>>>" ++ check (runes_of_ascii "MetaData Packet { }packet	asx  { @lengthOf( asx) falsey`crlf
-line`
-,
-    }
-    packet x	{uint32// @lengthOf(
-rootA	,u32 options1 `say ""hi""` , @tag( 7
-    )// packet A { u8 x, }
-@lengthOf( msg_type
-stringy	)	, }
-
-")).
-Eval vm_compute in ("<<<M686>>>" ++ check (runes_of_ascii "// " ++ [27880; 37322]%N ++ runes_of_ascii "
-MetaData T{char[// @lengthOf(
-3 ] stringy`a\`
-,
+    `doc`//x
+	, 
+repeat 
 char[
-/// triple
-//x
-007 ] u // trailing space 
-`u8 x,` ,  char[]
-    int //x
-`" ++ [28040; 24687; 31867; 22411]%N ++ runes_of_ascii "`,	zchar[
-// " ++ [128512]%N ++ runes_of_ascii " emoji
-// a // b
-4294967296 ] leftPad
-, char[]
-uint8x , }
+    65535
+] crc,
+}	,
+    u16 A  ,
+    o @lengthOf(  MetaDataX
+)
 
-")).
-Eval vm_compute in ("<<<M173>>>" ++ check (runes_of_ascii "//
-packet
-    u { }
-    packet
-    u8x { }options  {
-    Logon =string ; calculatedFrom ='\x00'
-;
-BodyLength// " ++ [27880; 37322]%N ++ runes_of_ascii "
-= 1; //	t
-_x// " ++ [27880; 37322]%N ++ runes_of_ascii "
-=""CRC32""; } root
-/// triple
-// " ++ [27880; 37322]%N ++ runes_of_ascii "
-packet Z9_ {
-}
-    MetaData chars  {
-}
-")).
-Eval vm_compute in ("<<<M699>>>" ++ check (runes_of_ascii "packet
-    Header { @calculatedFrom(""a	b"" ) match u128
-    /// triple
-    as // trailing space 
-A
-    { 42// " ++ [128512]%N ++ runes_of_ascii " emoji
-: Header [ 3 ,
-// trailing space 
-// " ++ [27880; 37322]%N ++ runes_of_ascii "
-""packet"" , ""x y"" , ""a	b""
-    ]: zchar , },
-}")).
-Eval vm_compute in ("<<<M1309>>>" ++ check (runes_of_ascii "MetaData  asx { /// triple
-uint16 //
-leftPad , char[ 4294967296 ] matchKey	`
-` ,
-// @lengthOf(
-/// triple
-u32 options1 , zchar[ // @lengthOf(
-0 ] falsey
-`it's`
-, char leftPad
-    `u8 x,` , }
-")).
-Eval vm_compute in ("<<<M2354>>>" ++ check (runes_of_ascii "MetaData Packet { }packet	asx  { @lengthOf( asx) falsey`crlf
-line`
-,
-    }
-    packet x	{uint32// @lengthOf(
-rootA	,u32 options1 `say ""hi""` , @tag( 7
-    )// packet A { u8 x, }
-msg_type")).
-Eval vm_compute in ("<<<M494>>>" ++ check (runes_of_ascii "packet u128
-{
-} MetaData
-    int {int16 crc//	t
-,
-    uint32 Pad,}packet string_ {} packet// @lengthOf(
-BodyLength {	msg_type	leftPad `a\` , }
-options{ tag = false charz = 3
-; }
-")).
-Eval vm_compute in ("<<<M1553>>>" ++ check (runes_of_ascii "root packet Foo // " ++ [128512]%N ++ runes_of_ascii " emoji
-{ } options {
-    // a // b
-    tag // `tick` ""quote"" 'q'
-= //	t
-""""
-    ; u8x = zchar[0  ] }
-MetaData
-    int {zchar[ 10]
-lengthOf	`` , i64 u8x")).
-Eval vm_compute in ("<<<M693>>>" ++ check (runes_of_ascii "
-options
-    {a1
-=char[ 1]// " ++ [27880; 37322]%N ++ runes_of_ascii "
-; x=f64; Z9_ =
-//x
-//
-char[
-3 ]
-; Z9_= '\x00' x_y_z
-    = zchar[ 10 ]
-; }
-    packet x_y_z { chars trueish `it's`
-// " ++ [128512]%N ++ runes_of_ascii " emoji
-//x
-, }")).
-Eval vm_compute in ("<<<M4100>>>" ++ check (runes_of_ascii "
-
-  packet 
-crc	{@lengthOf(
-
-/// triple
-calculatedFrom 
+    `// not a comment`
+    ,
+repeat string
+    BodyLength	`
+` 
 	    /// triple
-      ) i64_ {	uint64 
-_x,} 
-,@rightPad  (
-
-'0')
-
-uint8x,
-	// packet A { u8 x, }
-	}")).
-Eval vm_compute in ("<<<M3474>>>" ++ check (runes_of_ascii "packet A {
-    u8 a,
+	,
 }
-packet B {
-    u16 b,
+,repeatCount @lengthOf(	chars ) ,
+match  //	t
+    	uint8x
+as As 
+{ 007
+
+: 
+Packet""""  :
+
+Header
+3
+    :
+	zchar
+    7
+    // packet A { u8 x, }
+// " ++ [27880; 37322]%N ++ runes_of_ascii "
+  :u128  , [
+
+    4294967296 
+,
+    ""x y""  // " ++ [128512]%N ++ runes_of_ascii " emoji
+
+	]	:  crc
+[ 
+""1"",
+00  ] : 
+      //x
+		// @lengthOf(
+      int
+    ,
+
+    }
+	,
+	@lengthOf(
+
+Foo)repeat// " ++ [128512]%N ++ runes_of_ascii " emoji
+    	u  {
+string
+    float
+    // packet A { u8 x, }
+      /// triple
+    	, string
+
+matchKey @calculatedFrom(
+""it's"" // " ++ [128512]%N ++ runes_of_ascii " emoji
+)
+`it's`
+,repeat Packet  repeatCount  ,} ,  @lengthOf(
+T ) A 
+
+//x
+  @lengthOf(
+    rootA  // c
+    	)
+
+``
+
+, repeatCount 	 // " ++ [128512]%N ++ runes_of_ascii " emoji
+		@calculatedFrom( ""packet"" ) 
+,char[]x
+
+    // `tick` ""quote"" 'q'
+// packet A { u8 x, }
+		@calculatedFrom( ""abc""	)`crlf
+line`,}
+packet
+    i8i8 
+    // c
+// trailing space 
+{
+	}
+options	{MetaDataX = true
+	;	//x
+charz  =
+    true;
 }
-root packet P {
-    u8 K,
-    match K as M {
-        [1, 2] : A,
-        3 : B,
-        7 : A,
+")).
+Eval vm_compute in ("<<<M154>>>" ++ check (runes_of_ascii "root packet // packet A { u8 x, }
+a1 {
+    // " ++ [27880; 37322]%N ++ runes_of_ascii "
+    repeat leftPad {
+    // a // b
+    lengthOf
+, }
+    ,
+    @tag(// c
+0123456789)int64 repeatCount ``,	match
+int as len {
+1 : repeatCount , """" : lengthOf,
+[
+""a\""b""
+    , 255,
+7 ,""it's"" ,255,
+    00 , 7 , ""`tick`""
+    //
+    ]
+    : msg_type , 42 :body
+    ,
+    } ,
+    repeat asx { charz { char[ 007 ]f32a ,
+    // a // b
+    } ,match
+    u as
+    Z9_ { """ ++ [233]%N ++ runes_of_ascii "t" ++ [233]%N ++ runes_of_ascii """ : float
+,
+    // c
+    ""1""
+: Pad , [
+    """", 10 ] // packet A { u8 x, }
+: Header , [ 42 ]: repeatCount , 00// a // b
+: T , } , } ,
+@rightPad ( ' ' )
+falsey,
+    @tag( 0) @calculatedFrom(	""1"" )
+@leftPad (
+    '\x00') o , }
+    MetaData i64_{ } packet x{
+@lengthOf( Header) repeat
+msg_type {
+    repeat char[ 0123456789 ] u,
+    // packet A { u8 x, }
+    uint32
+BodyLength	@lengthOf( _x) `crlf
+line` , },} MetaData Header { Header
+    options1,
+    f32a
+stringy ,
+    char[] uint8x `a\` , char[ // trailing space 
+1
+    // packet A { u8 x, }
+    ] u128, i32 Z9_
+    ,
+    float32 // a // b
+msg_type,
+    }
+
+")).
+Eval vm_compute in ("<<<M1688>>>" ++ check (runes_of_ascii "packet chars {
+    int32 trueish,
+    match Pad as repeatCount {
+        [0] : Pad,
+        /// triple
+        3 : Foo,
+        ""abc"" : i64_,
+        [255, 3] : Packet,
+        [0123456789, ""// no comment""] : Packet,
+    },// c
+    match a1 as u {
+        [""abc"", """ ++ [233]%N ++ runes_of_ascii "t" ++ [233]%N ++ runes_of_ascii """, """", 0, 255] : u,
+    },
+    @tag(10)
+    match a1 as a1 {
+        [42] : packetx,
+    },
+    @lengthOf(As)
+    repeat char[0123456789] repeatCount `tab	here`,
+    string o `crlf
+    line`,
+    //x
+    // a // b
+    As @lengthOf(i8i8),
+    string repeatCount @lengthOf(u128),
+    //
+    @tag(00)
+    repeat pack Logon,
+}
+
+root packet Foo {
+    @tag(1)
+    char[3] i64_,
+    f32 charz,// `tick` ""quote"" 'q'
+    i8 zchar @lengthOf(MetaDataX),
+    @tag(007)
+    u8 _x,
+    @tag(255)
+    msg_type @calculatedFrom(""`tick`"") `doc`,
+    @calculatedFrom(""" ++ [233]%N ++ runes_of_ascii "t" ++ [233]%N ++ runes_of_ascii """)
+    match len as As {
+        ""// no comment"" : falsey,
     },
 }
+
+MetaData leftPad {
+    x i8i8,
+}//")).
+Eval vm_compute in ("<<<M1909>>>" ++ check (runes_of_ascii "packet options1 {
+    @leftPad()
+    @calculatedFrom(""\n"")
+    @leftPad(' ')
+    chars T `say ""hi""`,
+    // @lengthOf(
+    repeat zchar {
+        metadata {
+            // @lengthOf(
+            // c
+            match A as x_y_z {
+                ""1"" : string_,
+                // @lengthOf(
+                [""// no comment"", 10] : Foo,
+                ""a\\"" : Packet,
+                [""a	b"", 65535] : x,
+            },
+        },
+    },
+    @rightPad()
+    f32 msg_type,
+    match f32a as body {
+        [
+            ""`tick`"", ""\n"", ""a	b"", ""{,}"", 255,
+            ""x y"", 3
+        ] : x,
+        ""CRC32"" : zchar,
+        ""x y"" : rootA,
+        // `tick` ""quote"" 'q'
+        [00, ""it's"", 4294967296, ""CRC32""] : roots,
+        4294967296 : Logon,
+    },
+    @leftPad('0')
+    pack `crlf
+        line`,
+}")).
+Eval vm_compute in ("<<<M1438>>>" ++ check (runes_of_ascii "options {
+    LittleEndian = false;
+    StringPrefixLenType = u16;
+    ArrayPrefixLenType = u32;
+}
+packet Order {
+    uint8 x,
+    repeat string venue,
+}
+packet Heartbeat {
+    i64 count,
+    zchar[1] Qty,
+    repeat InX29 {
+        InSeqno26 {
+            int64 f1,
+            char[5] Acct,
+            Order,
+        },
+        repeat InSide285 {
+            repeat Order,
+            char[10] Px,
+            zchar[9] OrderId,
+        },
+        char[] venue,
+        Order,
+    },
+    @rightPad('\x00') char[4] clOrdID,
+}
+root packet Party {
+    zchar[3] f1,
+    u32 clOrdID,
+    u32 Px @lengthOf(Body),
+    match clOrdID as Body {
+        [180, 64] : Heartbeat,
+        11 : Order,
+    },
+    u32 Side2 @calculatedFrom(""CRC32""),
+}
 ")).
-Eval vm_compute in ("<<<M1296>>>" ++ check (runes_of_ascii "packet
-    u128 { u128  @lengthOf( matchKey
-)
-,	u64 //x
-crc	`a\`
-,@calculatedFrom(
-""x y"" )
-float32 zchar  ,
-repeat char[007 ] uint8x ,
+Eval vm_compute in ("<<<M28>>>" ++ check (runes_of_ascii "root
+// c
+// packet A { u8 x, }
+packet
+    // packet A { u8 x, }
+    f32a {@rightPad ()// packet A { u8 x, }
+options1 ,uint64
+    MetaDataX ,
+x_y_z `two words` ,
+// packet A { u8 x, }
+// trailing space 
+i8i8
+    `" ++ [28040; 24687; 31867; 22411]%N ++ runes_of_ascii "` ,int16 f32a@lengthOf( zchar	) ,}
+//x
+//x
+root
+    packet u8x { @rightPad	(
+' ' ) repeat a1
+    { repeat string_ stringy  ,
+    } , stringy// `tick` ""quote"" 'q'
 a1
+`// not a comment` ,
+@tag(	4294967296 ) float64 o, @lengthOf(a1 )
+repeat string_ {
+    // `tick` ""quote"" 'q'
+    match BodyLength// trailing space 
+as int {65535:u
+, } , pack
+    options1`a\` ,
+repeat lengthOf	matchKey , }
+    , repeat
+char[65535 ] BodyLength
+    , }
+")).
+Eval vm_compute in ("<<<M1469>>>" ++ check (runes_of_ascii "// top
+packet // c0a
+  // c0b
+Sub // c1
+{ u8
+    // c3
+a , // c5a
+  // c5b
+u32 // c6a
+  // c6b
+SubSum
+    // c7
+@calculatedFrom( // c8
+""CRC16"" )
+    // c10
+, } root // c13
+packet Frame
+    // c15
+{ u16 MsgType
+    // c18
+, // c19a
+  // c19b
+u16
+    // c20
+BodyLen // c21
+@lengthOf( // c22
+Body // c23a
+  // c23b
+) // c24a
+  // c24b
+,
+    // c25
+Sub Body // c27
+, string
+    // c29
+note , // c31a
+  // c31b
+u32 // c32a
+  // c32b
+Checksum @calculatedFrom( ""CRC16""
+    // c35
+) ,
+    // c37
+u8 // c38a
+  // c38b
+tail // c39a
+  // c39b
+, } // c41a
+  // c41b
+")).
+Eval vm_compute in ("<<<M11>>>" ++ check (runes_of_ascii "packet u128 {
+@rightPad ( )
+@tag( 7) stringy
+body , }// packet A { u8 x, }
+root
+    packet // " ++ [27880; 37322]%N ++ runes_of_ascii "
+i64_
+    { }
+    packet falsey	{
+float@lengthOf(_x //	t
+)`" ++ [233]%N ++ runes_of_ascii "`
+, i32 a1 ,
+u {//	t
+string	crc
+,  } ,@leftPad
+    // a // b
+    (
+)repeat
+    options1 { calculatedFrom @calculatedFrom(
+    ""it's"" ) `{ , }`	, zchar falsey `u8 x,` ,repeat falsey  , }
+// packet A { u8 x, }
+//x
+, }root // " ++ [128512]%N ++ runes_of_ascii " emoji
+packet pack
+    { @tag( 0123456789 ) // @lengthOf(
+repeat
+//
+// " ++ [27880; 37322]%N ++ runes_of_ascii "
+uint32
+roots, }")).
+Eval vm_compute in ("<<<M1845>>>" ++ check (runes_of_ascii "  packet
+
+    Pad 
+{	@leftPad ('0'
+	)
+
+    @calculatedFrom(
+
+""`tick`""
+)// @lengthOf(
+	match 
+i64_ 
+as
+x	{ 
+/// triple
+    00
+
+:
+
+zchar ,}
+	, i8i8
+	o  // " ++ [27880; 37322]%N ++ runes_of_ascii "
+      , char[]_x 
+,	repeat
+zchar[ 007 ]
+
+    trueish,
+zchar @lengthOf(
+trueish
+)
+	`{ , }` 
+, // c
+
+  @calculatedFrom( 
+""a\""b"" )	@tag( 1
+
+)	trueish zchar  ,char[3
+
+]  rootA
+
+@calculatedFrom(""a\""b""  )
+`tab	here` 
+    //	t
+    // trailing space 
+    ,  }
+")).
+Eval vm_compute in ("<<<M1197>>>" ++ check (runes_of_ascii "// top
+packet // c0
+trueish // c1
+{ // c2
+repeat // c3
+u32 // c4
+MetaDataX // c5
+`doc` // c6
+, // c7
+Header // c8
+{ // c9
+packetx // c10
+o // c11
+`u8 x,` // c12
+, // c13
+} // c14
+, // c15
+@leftPad // c16
+( // c17
+'\x00' // c18
+) // c19
+repeat // c20
+char[ // c21
+0123456789 // c22
+] // c23
+repeatCount // c24
+, // c25
+} // c26
+packet // c27
+Packet // c28
+{ // c29
+} // c30
+")).
+Eval vm_compute in ("<<<M45>>>" ++ check (runes_of_ascii "
+packet stringy
+{	falsey @lengthOf( MetaDataX )`crlf
+line`
+,match tag as uint8x{
+""a\""b"" : charz
+    , 00 :
+    repeatCount , 10
+: Header
+    ""a	b""
+    /// triple
+    : Pad
+,65535
+    :
+metadata
+    ,
+},
+    @calculatedFrom( ""a\""b""
+    )
+    //x
+    char[
+    255 ]falsey , x_y_z
+@calculatedFrom(  ""packet"")
+    `tab	here` , }
+")).
+Eval vm_compute in ("<<<M265>>>" ++ check (runes_of_ascii "MetaData x { char[]crc , char[7 ]float, u64 //	t
+f32a	,}
+    packet
+int
+    {Pad/// triple
+@lengthOf(Pad )
+`{ , }`, }
+    MetaData
+/// triple
+//
+T {
+A
+i8i8`it's` ,
+u8x options1 , roots zchar // `tick` ""quote"" 'q'
+,	int16 u8x , char[] a1
+`say ""hi""`, char
+//	t
+/// triple
+Pad ,
+    } // a // b")).
+Eval vm_compute in ("<<<M1625>>>" ++ check (runes_of_ascii "packet
+    crc
+
+{ calculatedFrom  { 
+string_
+u
+	,
+rootA
+	calculatedFrom	, } // packet A { u8 x, }
+		,@lengthOf( len
+)match	//x
+  	roots 
+    /// triple
+	  as
+    x{  ""// no comment""
+: msg_type
+,
+	7: calculatedFrom
+,
+
+}
+	,
+    }
+	packet  zchar 
+{
+
+    }
+")).
+Eval vm_compute in ("<<<M312>>>" ++ check (runes_of_ascii "options {
+f32a= 3	;Logon
+    =
+    ""x y"";
+len
+=
+10	}packet string_ {@lengthOf( MetaDataX ) // c
+int32 f32a , _x @lengthOf( rootA) ,@rightPad ( ) stringy ,
+@tag( 0123456789 )
+    // a // b
+    repeatCount @calculatedFrom( """ ++ [128512]%N ++ runes_of_ascii """
+    ), }
+")).
+Eval vm_compute in ("<<<M563>>>" ++ check (runes_of_ascii "options
+{
+matchKey = 42/// triple
+x='0' ;
+// packet A { u8 x, }
+//
+charz
+=
+// packet A { u8 x, }
+// trailing space 
+true  ; } MetaData BodyLength
+{
+uint8
+pack,zchar[ 1]float ,  float32 x_y_z `` ,u32
+_x,i16 body  , ""CRC32""
+")).
+Eval vm_compute in ("<<<M417>>>" ++ check (runes_of_ascii "options
+{
+matchKey = 42/// triple
+x= ='0' ;
+// packet A { u8 x, }
+//
+charz
+=
+// packet A { u8 x, }
+// trailing space 
+true  ; } MetaData BodyLength
+{
+uint8
+pack,zchar[ 1]float ,  float32 x_y_z `` ,u32
+_x,i16 body  , }
+")).
+Eval vm_compute in ("<<<M543>>>" ++ check (runes_of_ascii "options
+{
+matchKey = 42/// triple
+x='0' ;
+// packet A { u8 x, }
+//
+charz
+=
+// packet A { u8 x, }
+// trailing space 
+true  ; } MetaData BodyLength
+{
+uint8
+pack,zchar[ 1]float ,  float32 x_y_z `` ,u32
+_x i16, body  , }
+")).
+Eval vm_compute in ("<<<M503>>>" ++ check (runes_of_ascii "options
+{
+matchKey = 42/// triple
+x='0' ;
+// packet A { u8 x, }
+//
+charz
+=
+// packet A { u8 x, }
+// trailing space 
+true  ; } MetaData BodyLength
+{
+uint8
+pack,zchar[ 1], float  float32 x_y_z `` ,u32
+_x,i16 body  , }
+")).
+Eval vm_compute in ("<<<M536>>>" ++ check (runes_of_ascii "options
+{
+matchKey = 42/// triple
+x='0' ;
+// packet A { u8 x, }
+//
+charz
+=
+// packet A { u8 x, }
+// trailing space 
+true  ; } MetaData BodyLength
+{
+uint8
+pack,zchar[ 1]float ,  float32 x_y_z `` ,u32
+,i16 body  , }
+")).
+Eval vm_compute in ("<<<M1579>>>" ++ check (runes_of_ascii "options {
+    matchKey = 42/// triple
+    x = '0';
+    // packet A { u8 x, }
+    //
+    charz = true
+}
+
+MetaData BodyLength {
+    uint8 pack,
+    zchar[1] float,
+    float32 x_y_z ``,
+    u32 _x,
+    i16 body,
+}")).
+Eval vm_compute in ("<<<M1536>>>" ++ check (runes_of_ascii "packet crc {
+    @tag(0123456789)
+    i64 uint8x,
+}
+
+MetaData i8i8 {
+    zchar[65535] int,
+}
+
+packet lengthOf {
+    // trailing space 
+    //	t
+    @leftPad('0')
+    falsey int,
+}
+// @lengthOf(")).
+Eval vm_compute in ("<<<M34>>>" ++ check (runes_of_ascii "options{// `tick` ""quote"" 'q'
+len // `tick` ""quote"" 'q'
+= """ ++ [28040; 24687]%N ++ runes_of_ascii """;
+options1 = // " ++ [27880; 37322]%N ++ runes_of_ascii "
+int32 zchar	=
+    ""1"" ;float
+= true tag =""" ++ [28040; 24687]%N ++ runes_of_ascii """ ; } MetaData u128 { msg_type i8i8 `doc` ,	o body
 , }
 ")).
-Eval vm_compute in ("<<<M3752>>>" ++ check (runes_of_ascii "packet A {
+Eval vm_compute in ("<<<M1370>>>" ++ check (runes_of_ascii "// top
+root // c0
+packet P // c2a
+  // c2b
+{ u16 // c4
+a // c5a
+  // c5b
+, // c6
+u32 // c7
+Sum @calculatedFrom(
+    // c9
+""CRC32"" // c10
+) , // c12a
+  // c12b
+} // c13a
+  // c13b
+")).
+Eval vm_compute in ("<<<M505>>>" ++ check (runes_of_ascii "options
+{
+matchKey = 42/// triple
+x='0' ;
+// packet A { u8 x, }
+//
+charz
+=
+// packet A { u8 x, }
+// trailing space 
+true  ; } MetaData BodyLength
+{
+uint8
+pack,zchar[ 1]")).
+Eval vm_compute in ("<<<M1361>>>" ++ check (runes_of_ascii "options
+    { LittleEndian =	true
+	;
+} 
+packet  B{ u8
+
+a
+    ,  string s
+
+,
+
+    } root
+
+packet	P	{
+
+u16	L  @lengthOf( B
+)
+,
+
+    B
+	, u8
+    t  ,
+	}
+")).
+Eval vm_compute in ("<<<M1507>>>" ++ check (runes_of_ascii "packet
+
+    A
+{
+    Inner {
+
+    match
+
+k as
+
+    n  {	[
+1
+	,
+    22 ,
+007 
+,
+
+    4 
+,5  , 
+66	,
+
+    7 ]
+
+: B
+
+, } ,
+	} 
+,
+
+    }
+")).
+Eval vm_compute in ("<<<M1861>>>" ++ check (runes_of_ascii "packet A {
     match k as n {
         [
-            1, ""bb"", 007, ""d"", 5,
-            ""f"", 7, ""h"", 9
+            1, 22, 007, 4, 5,
+            66, 7, 8, 9, 10
         ] : B,
         2 : C,
     },
 }")).
-Eval vm_compute in ("<<<M1230>>>" ++ check (runes_of_ascii "packet Z9_ { match leftPad as options1{
-65535
-    : //	t
-matchKey ,
-    // packet A { u8 x, }
-    } , T
-//x
-// `tick` ""quote"" 'q'
-,}
+Eval vm_compute in ("<<<M1947>>>" ++ check (runes_of_ascii "  packet
 
-")).
-Eval vm_compute in ("<<<M3963>>>" ++ check (runes_of_ascii "// top
-packet Inner {
-    // c2a
-    // c2b
-    u8 a,
-}
+A
+{match k
+	as n {
+[  ""a"" ,
+    ""bb"" ,
 
-root packet P {
-    // c10
-    Inner ref_obj,
-    u8 x,
-    // c16
-}
-// c17")).
-Eval vm_compute in ("<<<M4334>>>" ++ check (runes_of_ascii "options {
-    // c
-    stringy = ""1"";
-    float = i64;// a // b
-    calculatedFrom = ""it's"";// c
-    Z9_ = ""// no comment"";// " ++ [27880; 37322]%N ++ runes_of_ascii "
-}")).
-Eval vm_compute in ("<<<M1710>>>" ++ check (runes_of_ascii "root packet /// triple
-rootA {	i32
-MetaDataX@calculatedFrom( ""CRC32"" ) `line1
-line2` , } MetaData BodyLength {
-u8
-rootA( } // c")).
-Eval vm_compute in ("<<<M1642>>>" ++ check (runes_of_ascii "root packet /// triple
-rootA {	
-MetaDataX@calculatedFrom( ""CRC32"" ) `line1
-line2` , } MetaData BodyLength {
-u8
-rootA, } // c")).
-Eval vm_compute in ("<<<M1702>>>" ++ check (runes_of_ascii "root packet /// triple
-rootA {	i32
-MetaDataX@calculatedFrom( ""CRC32"" ) `line1
-line2` , } MetaData BodyLength {
-u8
-, } // c")).
-Eval vm_compute in ("<<<M2319>>>" ++ check (runes_of_ascii "MetaData Packet { }packet	asx  { @lengthOf( asx) falsey`crlf
-line`
+    007	,  ""d"",""e""
+	, 66  ,
+    ""g"", ""h""  ,  9 ]	: B
+
 ,
+2
+:
+    C
     }
-    packet x	{uint32// @lengthOf(
-rootA	,u32")).
-Eval vm_compute in ("<<<M1861>>>" ++ check (runes_of_ascii "packet
-    Pad // a // b
-{ i8i8 @calculatedFrom( ""a	b"") `u8 x,` ,
-} options{ float// " ++ [128512]%N ++ runes_of_ascii " emoji
-= f64 i64_
-= =//	t
-00 }
-")).
-Eval vm_compute in ("<<<M4079>>>" ++ check (runes_of_ascii "
-packet
-	Pad{
+,
+}")).
+Eval vm_compute in ("<<<M1564>>>" ++ check (runes_of_ascii "  packet
 
-}	packet
-	options1{ 	 // trailing space 
-	}  
-  // @lengthOf(
+A {	match k
 
-root packet crc {
-repeat	crc 
-len ,	} ")).
-Eval vm_compute in ("<<<M241>>>" ++ check (runes_of_ascii "packet Pad {}packet
-    options1{// trailing space 
+as  n{
+[  1  ,
+
+    22 , 007  ,
+4
+	, 5
+	,
+66,
+	7
+,8, 
+9
+, 10
+,
+
+    11]
+: B
+    , 2 : C } ,}")).
+Eval vm_compute in ("<<<M1525>>>" ++ check (runes_of_ascii "options {
+    Pad = 3;
+    float = false;
+    Z9_ = ""packet""
+    chars = ""a\""b""
+    float = ""a\\""
 }
-    // @lengthOf(
-    root
-packet
-crc
+
+MetaData zchar {
+}")).
+Eval vm_compute in ("<<<M623>>>" ++ check (runes_of_ascii "MetaData
+    // trailing space 
+    matchKey
+{ u64 chars // a // b
+,char[] `// not a comment` lengthOf
+    , //	t
+}")).
+Eval vm_compute in ("<<<M99>>>" ++ check (runes_of_ascii "// c
+packet Logon
+    {
+@tag(
+42 )
+    repeat i64_ {As crc , }, } packet x_y_z { @lengthOf( x_y_z ) i8
+u `it's`, }")).
+Eval vm_compute in ("<<<M1789>>>" ++ check (runes_of_ascii "
+
+  MetaData
+	// " ++ [128512]%N ++ runes_of_ascii " emoji
+  msg_type
 {
-    repeat crc len , }")).
-Eval vm_compute in ("<<<M75>>>" ++ check (runes_of_ascii "options { pack =0 } MetaData int{ char[	00
-    ]
-    T
-    `crlf
-line` ,  i8 string_
-,//	t
-int16
-matchKey , }
-")).
-Eval vm_compute in ("<<<M4295>>>" ++ check (runes_of_ascii "
-packet	Logon{ @tag(  42// c
-  )
-@rightPad
-    (
-' '
-) @leftPad ( 
-)
-repeat	trueish { string	T  ,
-} ,	}
-")).
-Eval vm_compute in ("<<<M1391>>>" ++ check (runes_of_ascii "options
-{
-x_y_z =
-    uint32 asx = float64 body  = '0'
-u = '\x00' ; Header = '0'
-;  }
-    options { } // " ++ [27880; 37322]%N)).
-Eval vm_compute in ("<<<M3034>>>" ++ check (runes_of_ascii "packet A {
-    u16 len @lengthOf(body) `x
-`,
-    u32 crc @calculatedFrom(""CRC32"") `x
-`,
-    string body,
-}")).
-Eval vm_compute in ("<<<M1275>>>" ++ check (runes_of_ascii "root
-packet  len{ @rightPad (
-    ' ' ) @tag(0 ) int16 msg_type `{ , }` ,
-}
-packet
-    leftPad
-    {	}
-")).
-Eval vm_compute in ("<<<M3365>>>" ++ check (runes_of_ascii "packet calculatedFrom { @tag( 4294967296 ) u msg_type , char[ 3 ] crc @lengthOf( // c
-len ) `u8 x,` , }")).
-Eval vm_compute in ("<<<M3862>>>" ++ check (runes_of_ascii "  packet orderItem{
-    u8
 
-    a
-
-    , }
-root
-	packet
-	newOrder{
-
-    orderItem
-, u8 
-x , }
-")).
-Eval vm_compute in ("<<<M969>>>" ++ check (runes_of_ascii "packet charz { // trailing space 
-@tag(255	) @calculatedFrom(""packet"" ) u32 repeatCount	,// c
-}
-")).
-Eval vm_compute in ("<<<M777>>>" ++ check (runes_of_ascii "
-options
-    {	matchKey =
-0 BodyLength =
-uint64 ; pack  = ""1"" ;
-    f32a = i64 Foo=
-    ""a	b"" }")).
-Eval vm_compute in ("<<<M3241>>>" ++ check (runes_of_ascii "packet Logon { @tag( 42 ) @rightPad ( ' ' ) @leftPad ( )
-// c
-repeat trueish { string T , } , }")).
-Eval vm_compute in ("<<<M1878>>>" ++ check (runes_of_ascii "packet
-    Pad // a // b
-{ i8i8 @calculatedFrom( ""a	b"") `u8 x,` ,
-} options{ float// " ++ [128512]%N ++ runes_of_ascii " emoji")).
-Eval vm_compute in ("<<<M3599>>>" ++ check (runes_of_ascii "packet o {
-    @tag(42)
-    repeat x {
-        char[0123456789] i64_,
-    },
-}
-
-options {
-}")).
-Eval vm_compute in ("<<<M3658>>>" ++ check (runes_of_ascii "packet A {
-    match k as n {
-        [1, ""bb"", 007, ""d"", 5] : B,
-        2 : C,
-    },
-}")).
-Eval vm_compute in ("<<<M3584>>>" ++ check (runes_of_ascii "  packet
-	trueish 
-
-    //x
-    {@calculatedFrom(
-
-    ""abc""  )body
-	`tab	here`
+    As
+roots  , i32
+	rootA  ,
+	f64
+    falsey
+, char[] rootA
 	,}
-
 ")).
-Eval vm_compute in ("<<<M1960>>>" ++ check (runes_of_ascii "packet
-root crc
-    { f32a @calculatedFrom( """ ++ [233]%N ++ runes_of_ascii "t" ++ [233]%N ++ runes_of_ascii """ )
-    `say ""hi""`, lengthOf `` ,  }")).
-Eval vm_compute in ("<<<M2045>>>" ++ check (runes_of_ascii "root
-packet crc
-    { a" ++ [769]%N ++ runes_of_ascii "b @calculatedFrom( """ ++ [233]%N ++ runes_of_ascii "t" ++ [233]%N ++ runes_of_ascii """ )
-    `say ""hi""`, lengthOf `` ,  }")).
-Eval vm_compute in ("<<<M2932>>>" ++ check (runes_of_ascii "packet A {
+Eval vm_compute in ("<<<M1970>>>" ++ check (runes_of_ascii "
+packet	// c
+    o
+	{ @tag( 42
+)	repeat x { char[	0123456789
+]
+    i64_
+
+    , 
+}
+	, }	options
+    {
+} ")).
+Eval vm_compute in ("<<<M1264>>>" ++ check (runes_of_ascii "packet calculatedFrom { @tag( 4294967296 )
+// c
+u msg_type , char[ 3 ] crc @lengthOf( len ) `u8 x,` , }")).
+Eval vm_compute in ("<<<M912>>>" ++ check (runes_of_ascii "packet A {
   match k as n {
-    [1, 22, ""c c"", 4, 5, ""f"", 7] : B,
+    [1, 22, ""c c"", 4, 5, ""f"", 7, 8, ""i"", 10, 11, ""l""] : B
     2 : C
   },
 }")).
-Eval vm_compute in ("<<<M3308>>>" ++ check (runes_of_ascii "packet o { @tag( 42 ) repeat x // c
-{ char[ 0123456789 ] i64_ , } , } options { }")).
-Eval vm_compute in ("<<<M856>>>" ++ check (runes_of_ascii "MetaData
-    uint8x{ // " ++ [27880; 37322]%N ++ runes_of_ascii "
-packetx body
-`// not a comment`, zchar[ 7 ]rootA , }")).
-Eval vm_compute in ("<<<M46>>>" ++ check (runes_of_ascii "options
-    {
-    }packet
-    repeatCount { // `tick` ""quote"" 'q'
-}options{}
-")).
-Eval vm_compute in ("<<<M2284>>>" ++ check (runes_of_ascii "MetaData Packet { }packet	asx  { @lengthOf( asx) falsey`crlf
-line`
-,
-    }")).
-Eval vm_compute in ("<<<M3806>>>" ++ check (runes_of_ascii "packet
-A
-{match	k as  n
-{
-    [
-1,
-	""bb""
-    ] :B
-, 
-2
-    : 
-C }	, }")).
-Eval vm_compute in ("<<<M417>>>" ++ check (runes_of_ascii "MetaData uint8x
-{ zchar[ 10]
-//x
-// trailing space 
-Foo `tab	here` , }
-")).
-Eval vm_compute in ("<<<M3400>>>" ++ check (runes_of_ascii "MetaData _x {
-// c
-zchar[ 4294967296 ] lengthOf `// not a comment` , }")).
-Eval vm_compute in ("<<<M4336>>>" ++ check (runes_of_ascii "
-packet	Z9_
-    {
-
-    body
-MetaDataX
-, 
-}	MetaData asx
-{
-	}//	t
-")).
-Eval vm_compute in ("<<<M2196>>>" ++ check (runes_of_ascii "root
-    // `t" ++ [65279]%N ++ runes_of_ascii "ick` ""quote"" 'q'
-    packet As { trueish Packet , }
-")).
-Eval vm_compute in ("<<<M3465>>>" ++ check (runes_of_ascii "root packet P {
-    u8 s_u8,
-    repeat u8 r_u8,
-    u16 b_len,
-}
-")).
-Eval vm_compute in ("<<<M4361>>>" ++ check (runes_of_ascii "
-packet
-x_y_z {	i8
-
-    As 
-@calculatedFrom(
-
-""a	b"" )
-,
-	}
-
-")).
-Eval vm_compute in ("<<<M1916>>>" ++ check (runes_of_ascii "
-packet	As { @calculatedFrom(//x
-""{,}"" ""{,}""	)lengthOf , } 	 ")).
-Eval vm_compute in ("<<<M2171>>>" ++ check (runes_of_ascii "root
-    // `tick` ""quote"" 'q'
-    packet As {  Packet , }
-")).
-Eval vm_compute in ("<<<M1931>>>" ++ check (runes_of_ascii "
-packet	As { @calculatedFrom(//x
-""{,}""	)lengthOf , , } 	 ")).
-Eval vm_compute in ("<<<M2788>>>" ++ check (runes_of_ascii "repeat } ( f32 char[ repeat false int32 uint64 @rightPad")).
-Eval vm_compute in ("<<<M1397>>>" ++ check (runes_of_ascii "root
-    packet f32a// a // b
-{ zchar[ 00
-    ]a1, }
-")).
-Eval vm_compute in ("<<<M3769>>>" ++ check (runes_of_ascii "packet A
-    {
-
-    u8 x
-`d" ++ [11]%N ++ runes_of_ascii "`
-    ,  // c" ++ [11]%N ++ runes_of_ascii "
-	}
-
-")).
+Eval vm_compute in ("<<<M899>>>" ++ check (runes_of_ascii "packet A {
+  match k as n {
+    [1, 22, ""c c"", 4, 5, ""f"", 7, 8, ""i"", 10, 11] : B
+    2 : C
+  },
+}")).
+Eval vm_compute in ("<<<M1142>>>" ++ check (runes_of_ascii "packet Logon { @tag( 42 ) @rightPad // c
+( ' ' ) @leftPad ( ) repeat trueish { string T , } , }")).
 Eval vm_compute in ("<<<M1957>>>" ++ check (runes_of_ascii "
-packet	As { @calculatedFrom(//x
-""{,}""	)" ++ [21517; 23383]%N ++ runes_of_ascii " , } 	 ")).
-Eval vm_compute in ("<<<M837>>>" ++ check (runes_of_ascii "MetaData // @lengthOf(
-tag{  lengthOf Pad
-, }
-")).
-Eval vm_compute in ("<<<M591>>>" ++ check (runes_of_ascii "
-root
-packet BodyLength { } packet uint8x { }")).
-Eval vm_compute in ("<<<M2817>>>" ++ check (runes_of_ascii "i8 root char[] as `a\` uint8x f64 @rightPad ]")).
-Eval vm_compute in ("<<<M2254>>>" ++ check (runes_of_ascii "MetaData Packet { }packet	asx  { @lengthOf(")).
-Eval vm_compute in ("<<<M824>>>" ++ check (runes_of_ascii "MetaData trueish {i8 MetaDataX // " ++ [27880; 37322]%N ++ runes_of_ascii "
-, }")).
-Eval vm_compute in ("<<<M2130>>>" ++ check (runes_of_ascii "MetaData x
-{// " ++ [128512]%N ++ runes_of_ascii " emoji
-i16 stringy , } }")).
-Eval vm_compute in ("<<<M3697>>>" ++ check (runes_of_ascii "  root packet
 
-A
-    {u8 
-x 
-`a
-b`	, } ")).
-Eval vm_compute in ("<<<M2103>>>" ++ check (runes_of_ascii "x MetaData
-{// " ++ [128512]%N ++ runes_of_ascii " emoji
-i16 stringy , }")).
-Eval vm_compute in ("<<<M2405>>>" ++ check (runes_of_ascii "MetaData A
-{
-i64
-chars	, } // `tick` ")).
-Eval vm_compute in ("<<<M1198>>>" ++ check (runes_of_ascii "// packet A { u8 x, }
-options { }
-")).
-Eval vm_compute in ("<<<M4455>>>" ++ check (runes_of_ascii "  root
-	packet
-P
-{
-string  s , } ")).
-Eval vm_compute in ("<<<M3878>>>" ++ check (runes_of_ascii "packet A {
-    x @lengthOf(y),
-}")).
-Eval vm_compute in ("<<<M2600>>>" ++ check (runes_of_ascii "packet A { match k as n { }, }")).
-Eval vm_compute in ("<<<M2067>>>" ++ check (runes_of_ascii "MetaData A { u64 pack pack, }")).
-Eval vm_compute in ("<<<M4418>>>" ++ check (runes_of_ascii "
-packet
-    A {
-	}  // c 
- 
-")).
-Eval vm_compute in ("<<<M819>>>" ++ check (runes_of_ascii "  packet
-repeatCount  {}
+  packet A
+    {	Inner{match
 
-")).
-Eval vm_compute in ("<<<M2089>>>" ++ check (runes_of_ascii "MetaData A @{ u64 pack, }")).
-Eval vm_compute in ("<<<M2049>>>" ++ check (runes_of_ascii "A MetaData { u64 pack, }")).
-Eval vm_compute in ("<<<M3764>>>" ++ check (runes_of_ascii "packet lengthOf {
+    k as n
+	{
+    [ 1
+    ,22 ,007 ] :
+    B  ,  }
+	,
+} ,
 }
-// c")).
-Eval vm_compute in ("<<<M772>>>" ++ check (runes_of_ascii "packet
-    crc {
-    }")).
-Eval vm_compute in ("<<<M2645>>>" ++ check (runes_of_ascii "MetaData M { x y z, }")).
-Eval vm_compute in ("<<<M4329>>>" ++ check (runes_of_ascii "packet o {
-    //x
-}")).
-Eval vm_compute in ("<<<M4208>>>" ++ check (runes_of_ascii "options
-
-    {  }")).
-Eval vm_compute in ("<<<M3082>>>" ++ check (runes_of_ascii "// c" ++ [5760]%N ++ runes_of_ascii "
-packet A {
-}")).
-Eval vm_compute in ("<<<M2229>>>" ++ check (runes_of_ascii "MetaData Packet {")).
-Eval vm_compute in ("<<<M3167>>>" ++ check (runes_of_ascii "options { // a
- }")).
-Eval vm_compute in ("<<<M2689>>>" ++ check (runes_of_ascii "= u32 """" uint64")).
-Eval vm_compute in ("<<<M906>>>" ++ check (runes_of_ascii "
-// " ++ [128512]%N ++ runes_of_ascii " emoji
 ")).
-Eval vm_compute in ("<<<M2626>>>" ++ check (runes_of_ascii "packet { }")).
-Eval vm_compute in ("<<<M2433>>>" ++ check (runes_of_ascii "zchar [")).
-Eval vm_compute in ("<<<M2775>>>" ++ check (runes_of_ascii ";>/7""#")).
-Eval vm_compute in ("<<<M3060>>>" ++ check (runes_of_ascii "// c ")).
-Eval vm_compute in ("<<<M2507>>>" ++ check (runes_of_ascii """a\""")).
-Eval vm_compute in ("<<<M2526>>>" ++ check (runes_of_ascii "1 2")).
-Eval vm_compute in ("<<<M2534>>>" ++ check (runes_of_ascii "_1")).
+Eval vm_compute in ("<<<M1581>>>" ++ check (runes_of_ascii "// top
+root packet P {
+    // c3
+    repeat char cs,
+    u8 x,// c10a
+    // c10b
+}
+// c11")).
+Eval vm_compute in ("<<<M2009>>>" ++ check (runes_of_ascii "packet
+A
+
+{Logon{
+    repeat
+
+char[42
+]falsey	`a\`
+	,  repeat  int32 T
+,
+} ,
+
+    }
+")).
+Eval vm_compute in ("<<<M831>>>" ++ check (runes_of_ascii "packet A {
+  match k as n {
+    [""a"", 22, ""c c"", 4, ""e"", 66] : B,
+    2 : C
+  },
+}")).
+Eval vm_compute in ("<<<M1225>>>" ++ check (runes_of_ascii "packet o { @tag( 42 ) repeat x {
+// c
+char[ 0123456789 ] i64_ , } , } options { }")).
+Eval vm_compute in ("<<<M1093>>>" ++ check (runes_of_ascii "packet A { u16 // a
+ len // b
+ @lengthOf( // c
+ body // d
+ ) // e
+ `d` // f
+ , }")).
+Eval vm_compute in ("<<<M1940>>>" ++ check (runes_of_ascii "MetaData matchKey {
+    u64 chars,
+    i16 lengthOf `// not a comment`,//	t
+}")).
+Eval vm_compute in ("<<<M821>>>" ++ check (runes_of_ascii "packet A {
+  match k as n {
+    [1, 22, ""c c"", 4, 5] : B
+    2 : C
+  },
+}")).
+Eval vm_compute in ("<<<M876>>>" ++ check (runes_of_ascii "packet A { Inner { match k as n { [1,22,007,4,5,66,7,8,9] : B, }, }, }")).
+Eval vm_compute in ("<<<M863>>>" ++ check (runes_of_ascii "packet A { Inner { match k as n { [1,22,007,4,5,66,7,8] : B, }, }, }")).
+Eval vm_compute in ("<<<M783>>>" ++ check (runes_of_ascii "packet A {
+  match k as n {
+    [""a"", 22] : B,
+    2 : C
+  },
+}")).
+Eval vm_compute in ("<<<M223>>>" ++ check (runes_of_ascii "options //	t
+{  MetaDataX = // " ++ [128512]%N ++ runes_of_ascii " emoji
+'0';  } /// triple")).
+Eval vm_compute in ("<<<M356>>>" ++ check (runes_of_ascii "packet
+    x_y_z {
+i8 As@calculatedFrom(""a	b""	)  ,}")).
+Eval vm_compute in ("<<<M355>>>" ++ check (runes_of_ascii "root
+    packet repeatCount {	A	,
+    } 	 ")).
+Eval vm_compute in ("<<<M1117>>>" ++ check (runes_of_ascii "MetaData zchar { zchar[ 3 ] Pad
+// c
+, }")).
+Eval vm_compute in ("<<<M1896>>>" ++ check (runes_of_ascii "packet A {
+    u8 x,// c
+    u8 y,
+}")).
+Eval vm_compute in ("<<<M1916>>>" ++ check (runes_of_ascii "packet A {
+    u8 x `d" ++ [65279]%N ++ runes_of_ascii "`,// c" ++ [65279]%N ++ runes_of_ascii "
+}")).
+Eval vm_compute in ("<<<M1057>>>" ++ check (runes_of_ascii "packet A {
+ u8 x `d" ++ [6158]%N ++ runes_of_ascii "`, // c" ++ [6158]%N ++ runes_of_ascii "
+}")).
+Eval vm_compute in ("<<<M1079>>>" ++ check (runes_of_ascii "options { a = 1 // a
+ ; }")).
+Eval vm_compute in ("<<<M760>>>" ++ check ([8]%N ++ runes_of_ascii "9" ++ [65533]%N ++ runes_of_ascii "?/" ++ [3; 65533]%N ++ runes_of_ascii "D" ++ [65533; 65533]%N ++ runes_of_ascii "z2" ++ [65533]%N ++ runes_of_ascii "[:" ++ [65533; 65533]%N ++ runes_of_ascii "DW" ++ [647]%N ++ runes_of_ascii "|1")).
+Eval vm_compute in ("<<<M1827>>>" ++ check (runes_of_ascii "root packet Z9_ {
+}")).
+Eval vm_compute in ("<<<M1045>>>" ++ check (runes_of_ascii "packet A {
+}
+// c" ++ [8203]%N)).
+Eval vm_compute in ("<<<M1743>>>" ++ check (runes_of_ascii "MetaData i64_ {
+}")).
+Eval vm_compute in ("<<<M395>>>" ++ check (runes_of_ascii "options")).
+Eval vm_compute in ("<<<M727>>>" ++ check (runes_of_ascii "		")).
